@@ -141,6 +141,13 @@ Proof.
   destruct p; [reflexivity|]. apply IH. lia.
 Qed.
 
+Ltac bcases :=
+  repeat (match goal with
+          | |- context [Nat.leb ?a ?b] => destruct (Nat.leb_spec a b)
+          | |- context [Nat.ltb ?a ?b] => destruct (Nat.ltb_spec a b)
+          | |- context [Nat.eqb ?a ?b] => destruct (Nat.eqb_spec a b)
+          end; cbn [andb orb negb]).
+
 Section Facts.
   Variable E : Type.
   Variable zero : E.
@@ -182,7 +189,7 @@ Section Facts.
     intros [[H1 H2] H3]. repeat split; auto. eapply NoDup_app_r; eauto.
   Qed.
   Lemma wf_NoDup r : wf r = true -> NoDup (names r).
-  Proof. unfold wf. rewrite andb_true_iff, nodupb_NoDup. tauto. Qed.
+  Proof. unfold wf. rewrite andb_true_iff, nodupb_NoDup. intros [_ H]. exact H. Qed.
   Lemma wf_In r d : wf r = true -> In d r -> wf_dist d = true.
   Proof. unfold wf. rewrite andb_true_iff, forallb_forall. intros [H _]. apply H. Qed.
 
@@ -263,4 +270,1562 @@ Section Facts.
     destruct (existsb (fun item => memp item ns) inds); cbn [negb orb] in Hd; [|reflexivity].
     apply removed_prefix_order. exact Hd.
   Qed.
+
+  (* ---- lookup / cov: an In-based interface ---------------------------------------------------- *)
+  Lemma lookup_from_shift (r : coll) x k :
+    lookup_from r x (S k) = option_map (fun p => (S (fst p), snd p)) (lookup_from r x k).
+  Proof.
+    revert k. induction r as [|d tl IH]; intros k; cbn [Model.lookup_from]; [reflexivity|].
+    destruct (memp x (dnames d)); [reflexivity|]. apply IH.
+  Qed.
+
+  Lemma lookup_from_nth (r : coll) : NoDup (names r) ->
+    forall i d x k, nth_error r i = Some d -> In x (dnames d) -> lookup_from r x k = Some (k + i, d).
+  Proof.
+    induction r as [|d0 tl IH]; intros Hnd i d x k Hi Hx; [destruct i; discriminate|].
+    rewrite names_cons in Hnd. cbn [Model.lookup_from]. destruct i as [|i]; cbn [nth_error] in Hi.
+    - inversion Hi; subst. apply memp_In in Hx. rewrite Hx. f_equal. f_equal. lia.
+    - destruct (memp x (dnames d0)) eqn:M.
+      + exfalso. apply memp_In in M. eapply NoDup_app_disj; [exact Hnd | exact M |].
+        apply In_names. exists d. split; [eapply nth_error_In; eauto | exact Hx].
+      + rewrite (IH (NoDup_app_r _ _ Hnd) i d x (S k) Hi Hx). f_equal. f_equal. lia.
+  Qed.
+
+  Lemma lookup_In (r : coll) d x : NoDup (names r) -> In d r -> In x (dnames d) ->
+    exists i, lookup r x = Some (i, d) /\ nth_error r i = Some d.
+  Proof.
+    intros Hnd Hd Hx. destruct (In_nth_error _ _ Hd) as [i Hi]. exists i. split; [|exact Hi].
+    unfold Model.lookup. rewrite (lookup_from_nth r Hnd i d x 0 Hi Hx). reflexivity.
+  Qed.
+
+  Lemma lookup_None (r : coll) x k : ~ In x (names r) -> lookup_from r x k = None.
+  Proof.
+    revert k. induction r as [|d tl IH]; intros k H; cbn [Model.lookup_from]; [reflexivity|].
+    rewrite names_cons in H. destruct (memp x (dnames d)) eqn:M.
+    - apply memp_In in M. exfalso. apply H. apply in_or_app. auto.
+    - apply IH. intro. apply H. apply in_or_app. auto.
+  Qed.
+
+  Lemma cov_same (r : coll) d x y : NoDup (names r) -> In d r -> In x (dnames d) -> In y (dnames d) ->
+    cov r x y = dcov d x y.
+  Proof.
+    intros Hnd Hd Hx Hy. destruct (In_nth_error _ _ Hd) as [i Hi].
+    unfold Model.cov, Model.lookup.
+    rewrite (lookup_from_nth r Hnd i d x 0 Hi Hx), (lookup_from_nth r Hnd i d y 0 Hi Hy).
+    rewrite Nat.eqb_refl. reflexivity.
+  Qed.
+
+  Lemma cov_diff (r : coll) d1 d2 x y : NoDup (names r) -> In d1 r -> In d2 r ->
+    In x (dnames d1) -> In y (dnames d2) -> ~ In y (dnames d1) -> cov r x y = Some zero.
+  Proof.
+    intros Hnd H1 H2 Hx Hy Hn. destruct (In_nth_error _ _ H1) as [i Hi]. destruct (In_nth_error _ _ H2) as [j Hj].
+    unfold Model.cov, Model.lookup.
+    rewrite (lookup_from_nth r Hnd i d1 x 0 Hi Hx), (lookup_from_nth r Hnd j d2 y 0 Hj Hy).
+    cbn [plus]. destruct (Nat.eqb i j) eqn:Eij; [|reflexivity].
+    apply Nat.eqb_eq in Eij. subst. rewrite Hi in Hj. inversion Hj; subst. contradiction.
+  Qed.
+
+  Lemma cov_None_l (r : coll) x y : ~ In x (names r) -> cov r x y = None.
+  Proof. intros H. unfold Model.cov, Model.lookup. rewrite lookup_None by exact H. reflexivity. Qed.
+
+  (* the distribution of a name *)
+  Lemma dist_of (r : coll) x : In x (names r) -> exists d, In d r /\ In x (dnames d).
+  Proof. apply In_names. Qed.
+
+  Lemma cov_defined (r : coll) x y : wf r = true -> In x (names r) -> In y (names r) -> exists e, cov r x y = Some e.
+  Proof.
+    intros Hwf Hx Hy. pose proof (wf_NoDup _ Hwf) as Hnd.
+    destruct (dist_of _ _ Hx) as [d1 [H1 Hx1]]. destruct (dist_of _ _ Hy) as [d2 [H2 Hy2]].
+    destruct (in_dec Pos.eq_dec y (dnames d1)) as [Hin|Hout].
+    - rewrite (cov_same r d1 x y Hnd H1 Hx1 Hin).
+      destruct d1 as [n l m v | ns l mu V]; cbn [Model.dcov dnames] in *.
+      + destruct Hx1 as [->|[]]. destruct Hin as [->|[]]. rewrite Pos.eqb_refl. cbn. eauto.
+      + destruct (index_of_In _ _ Hx1) as [i ->]. destruct (index_of_In _ _ Hin) as [j ->]. eauto.
+    - rewrite (cov_diff r d1 d2 x y Hnd H1 H2 Hx1 Hy2 Hout). eauto.
+  Qed.
+
+  (* ---- entries of selected sub-matrices ------------------------------------------------------- *)
+  Lemma mget_select (V : matrix) K p q : p < length K -> q < length K ->
+    mget (select V K) p q = mget V (nth p K 0) (nth q K 0).
+  Proof.
+    intros Hp Hq. unfold Model.select, Model.mget at 1.
+    rewrite (nth_map_nth (fun i => map (fun j => Model.mget E zero V i j) K) K p 0 []) by exact Hp.
+    rewrite (nth_map_nth (fun j => Model.mget E zero V (nth p K 0) j) K q 0 zero) by exact Hq.
+    reflexivity.
+  Qed.
+
+  Lemma index_of_map_positions f ns x i : NoDup ns -> index_of x ns = Some i -> f x = true ->
+    exists p, index_of x (map (fun k => nth k ns 1%positive) (positions f ns)) = Some p /\
+              p < length (positions f ns) /\ nth p (positions f ns) 0 = i.
+  Proof.
+    intros Hnd Hi Hf. destruct (index_of_Some _ _ _ Hi) as [Hlt Hnth].
+    assert (HinK : In i (positions f ns)).
+    { apply positions_spec. split; [exact Hlt|]. rewrite Hnth. exact Hf. }
+    assert (HinM : In x (map (fun k => nth k ns 1%positive) (positions f ns))).
+    { apply in_map_iff. exists i. split; [apply Hnth | exact HinK]. }
+    destruct (index_of_In _ _ HinM) as [p Hp]. exists p. split; [exact Hp|].
+    destruct (index_of_Some _ _ _ Hp) as [Hpl Hpn]. rewrite map_length in Hpl. split; [exact Hpl|].
+    specialize (Hpn 1%positive). rewrite (nth_map_nth (fun k => nth k ns 1%positive) (positions f ns) p 0 1%positive) in Hpn by exact Hpl.
+    (* nth (nth p K) ns = x = nth i ns, both in range, NoDup -> equal *)
+    assert (Hk : nth p (positions f ns) 0 < length ns).
+    { apply (positions_lt f). apply nth_In. exact Hpl. }
+    pose proof (index_of_nth ns Hnd _ 1%positive Hk) as E1. rewrite Hpn in E1. rewrite Hi in E1. inversion E1. reflexivity.
+  Qed.
+
+  Lemma same_dist (r : coll) d1 d2 x : NoDup (names r) -> In d1 r -> In d2 r ->
+    In x (dnames d1) -> In x (dnames d2) -> d1 = d2.
+  Proof.
+    intros Hnd H1 H2 Hx1 Hx2.
+    destruct (lookup_In r d1 x Hnd H1 Hx1) as [i [Li _]]. destruct (lookup_In r d2 x Hnd H2 Hx2) as [j [Lj _]].
+    rewrite Li in Lj. inversion Lj. reflexivity.
+  Qed.
+
+  Lemma filter_all {A} (f : A -> bool) l : (forall x, In x l -> f x = true) -> filter f l = l.
+  Proof.
+    induction l as [|a tl IH]; intros H; cbn [filter]; [reflexivity|].
+    rewrite (H a (or_introl eq_refl)). f_equal. apply IH. intros x Hx. apply H. right. exact Hx.
+  Qed.
+
+  Lemma unaffected_notin inds (ns : list id) n :
+    existsb (fun item => memp item ns) inds = false -> In n ns -> memp n inds = false.
+  Proof.
+    intros H Hn. apply memp_false_iff. intro Hi.
+    assert (T : existsb (fun item => memp item ns) inds = true).
+    { apply existsb_exists. exists n. split; [exact Hi | apply memp_In; exact Hn]. }
+    congruence.
+  Qed.
+
+  Lemma affected_true inds (ns : list id) x :
+    In x ns -> In x inds -> existsb (fun item => memp item ns) inds = true.
+  Proof. intros H1 H2. apply existsb_exists. exists x. split; [exact H2 | apply memp_In; exact H1]. Qed.
+
+  Lemma joint_sel_wf (ns : list id) l (mu : list E) (V : matrix) K :
+    1 <= length K -> NoDup (map (fun i => nth i ns 1%positive) K) ->
+    wf_dist (Joint (map (fun i => nth i ns 1%positive) K) l (map (fun i => nth i mu zero) K) (select V K)) = true.
+  Proof.
+    intros HK Hnd. cbn [Model.wf_dist]. rewrite !map_length. unfold Model.select. rewrite map_length, !Nat.eqb_refl.
+    apply andb_true_iff. split; [|apply nodupb_NoDup; exact Hnd].
+    apply andb_true_iff. split; [apply andb_true_iff; split; [apply andb_true_iff; split|]; try reflexivity; apply Nat.leb_le; exact HK|].
+    apply forallb_forall. intros row Hrow.
+    apply in_map_iff in Hrow. destruct Hrow as [i [<- _]]. rewrite map_length. apply Nat.eqb_refl.
+  Qed.
+
+  (* the piece of a distribution that keeps the variables not named in inds *)
+  Lemma kept_piece inds (d : dist) x : wf_dist d = true -> In x (dnames d) -> ~ In x inds ->
+    exists p, In p (unjoin1 inds d) /\
+              dnames p = filter (fun n => negb (memp n inds)) (dnames d) /\
+              (forall a b, In a (dnames p) -> In b (dnames p) -> dcov p a b = dcov d a b) /\
+              dlevel p = dlevel d /\ wf_dist p = true.
+  Proof.
+    intros Hwf Hx Hni. destruct d as [n l m v | ns l mu V].
+    - exists (Normal n l m v). cbn [Model.unjoin1 dnames] in *. destruct Hx as [->|[]].
+      apply memp_false_iff in Hni. cbn [filter]. rewrite Hni. cbn. repeat split; auto.
+    - destruct (wf_dist_joint _ _ _ _ Hwf) as [Hlen [Hmu [HV [Hrows Hnd]]]].
+      cbn [Model.unjoin1 dnames] in *.
+      destruct (existsb (fun item => memp item ns) inds) eqn:Aff.
+      + set (f := fun n : id => negb (memp n inds)).
+        pose proof (map_nth_positions f ns 1%positive) as HK.
+        assert (Hxf : In x (filter f ns)). { apply filter_In. split; [exact Hx|]. unfold f. apply memp_false_iff in Hni. rewrite Hni. reflexivity. }
+        destruct (positions f ns) as [|k [|k2 K]] eqn:EK.
+        * rewrite <- HK in Hxf. contradiction.
+        * (* one variable left: a NormalDistribution *)
+          exists (Normal (nth k ns 1%positive) l (nth k mu zero) (Model.mget E zero V k k)).
+          assert (Hk : k < length ns). { apply (positions_lt f). rewrite EK. left. reflexivity. }
+          split; [apply in_or_app; right; left; reflexivity|]. cbn [dnames dlevel]. split; [exact HK|].
+          split; [|split; reflexivity].
+          intros a b [<-|[]] [<-|[]]. cbn [Model.dcov]. rewrite Pos.eqb_refl. cbn [andb].
+          rewrite (index_of_nth ns Hnd k 1%positive Hk). reflexivity.
+        * (* a smaller joint distribution *)
+          set (K2 := k :: k2 :: K) in *.
+          exists (Joint (map (fun i => nth i ns 1%positive) K2) l (map (fun i => nth i mu zero) K2) (Model.select E zero V K2)).
+          split; [apply in_or_app; right; left; reflexivity|]. cbn [dnames dlevel]. split; [exact HK|].
+          split; [|split; [reflexivity|]].
+          -- intros a b Ha Hb. cbn [Model.dcov]. rewrite HK in Ha, Hb.
+             apply filter_In in Ha. apply filter_In in Hb. destruct Ha as [Ha Hfa]. destruct Hb as [Hb Hfb].
+             destruct (index_of_In _ _ Ha) as [ia Hia]. destruct (index_of_In _ _ Hb) as [ib Hib].
+             destruct (index_of_map_positions f ns a ia Hnd Hia Hfa) as [pa [Hpa [Hpal Hpan]]].
+             destruct (index_of_map_positions f ns b ib Hnd Hib Hfb) as [pb [Hpb [Hpbl Hpbn]]].
+             rewrite EK in Hpa, Hpb, Hpal, Hpbl, Hpan, Hpbn. fold K2 in Hpa, Hpb, Hpal, Hpbl, Hpan, Hpbn.
+             rewrite Hpa, Hpb, Hia, Hib. rewrite mget_select by assumption. rewrite Hpan, Hpbn. reflexivity.
+          -- apply joint_sel_wf; [unfold K2; cbn; lia|]. rewrite HK. apply NoDup_filter. exact Hnd.
+      + exists (Joint ns l mu V). split; [left; reflexivity|]. cbn [dnames dlevel]. split.
+        * symmetry. apply filter_all. intros n Hn. rewrite (unaffected_notin inds ns n Aff Hn). reflexivity.
+        * repeat split; auto.
+  Qed.
+
+  (* the piece of a distribution that holds an unjoined variable *)
+  Lemma removed_piece inds (d : dist) x : wf_dist d = true -> In x (dnames d) -> In x inds ->
+    exists p, In p (unjoin1 inds d) /\ dnames p = [x] /\ dcov p x x = dcov d x x /\
+              dlevel p = dlevel d /\ wf_dist p = true.
+  Proof.
+    intros Hwf Hx Hi. destruct d as [n l m v | ns l mu V].
+    - exists (Normal n l m v). cbn [Model.unjoin1 dnames] in *. destruct Hx as [->|[]]. repeat split; auto. left. reflexivity.
+    - destruct (wf_dist_joint _ _ _ _ Hwf) as [Hlen [Hmu [HV [Hrows Hnd]]]].
+      cbn [Model.unjoin1 dnames] in *. rewrite (affected_true inds ns x Hx Hi).
+      destruct (index_of_In _ _ Hx) as [i Hix]. destruct (index_of_Some _ _ _ Hix) as [Hil Hin].
+      exists (Normal (nth i ns 1%positive) l (nth i mu zero) (Model.mget E zero V i i)). split.
+      + apply in_or_app. left. apply in_map_iff. exists i. split; [reflexivity|].
+        apply positions_spec. split; [exact Hil|]. rewrite Hin. apply memp_In. exact Hi.
+      + cbn [dnames dlevel Model.dcov]. rewrite Hin. rewrite Pos.eqb_refl, Hix. repeat split; reflexivity.
+  Qed.
+
+  Lemma piece_names_incl inds (d p : dist) z : In p (unjoin1 inds d) -> In z (dnames p) -> In z (dnames d).
+  Proof.
+    intros Hp Hz. apply (Permutation_in z (unjoin_order_perm inds d)). rewrite <- names_unjoin1.
+    apply In_names. exists p. split; assumption.
+  Qed.
+
+  Lemma In_unjoin inds (r : coll) p : In p (unjoin inds r) <-> exists d, In d r /\ In p (unjoin1 inds d).
+  Proof. unfold Model.unjoin. apply in_flat_map. Qed.
+
+  Lemma unjoin_NoDup inds (r : coll) : NoDup (names r) -> NoDup (names (unjoin inds r)).
+  Proof. intros H. eapply Permutation_NoDup; [apply Permutation_sym, unjoin_names_perm | exact H]. Qed.
+
+  Lemma unjoin1_wf inds (d : dist) p : wf_dist d = true -> In p (unjoin1 inds d) -> wf_dist p = true.
+  Proof.
+    intros Hwf Hp. destruct d as [n l m v | ns l mu V]; cbn [Model.unjoin1] in Hp.
+    - destruct Hp as [<-|[]]. reflexivity.
+    - destruct (existsb (fun item => memp item ns) inds) eqn:Aff; [|destruct Hp as [<-|[]]; exact Hwf].
+      destruct (wf_dist_joint _ _ _ _ Hwf) as [_ [_ [_ [_ Hnd]]]].
+      apply in_app_or in Hp. destruct Hp as [Hp|Hp].
+      + apply in_map_iff in Hp. destruct Hp as [i [<- _]]. reflexivity.
+      + destruct (positions (fun n => negb (memp n inds)) ns) as [|k [|k2 K]] eqn:EK.
+        * destruct Hp.
+        * destruct Hp as [<-|[]]. reflexivity.
+        * destruct Hp as [<-|[]]. apply joint_sel_wf; [cbn; lia|].
+          rewrite <- EK, map_nth_positions. apply NoDup_filter. exact Hnd.
+  Qed.
+
+  Lemma unjoin_wf inds (r : coll) : wf r = true -> wf (unjoin inds r) = true.
+  Proof.
+    intros Hwf. unfold Model.wf. apply andb_true_iff. split.
+    - apply forallb_forall. intros p Hp. apply In_unjoin in Hp. destruct Hp as [d [Hd Hp]].
+      eapply unjoin1_wf; [eapply wf_In; eauto | exact Hp].
+    - apply nodupb_NoDup. apply unjoin_NoDup. apply wf_NoDup. exact Hwf.
+  Qed.
+
+  (* ---- unjoin: variances and covariances ------------------------------------------------------ *)
+  Lemma unjoin_cov_kept inds (r : coll) x y : wf r = true -> In x (names r) -> In y (names r) ->
+    ~ In x inds -> ~ In y inds -> cov (unjoin inds r) x y = cov r x y.
+  Proof.
+    intros Hwf Hx Hy Hnx Hny. pose proof (wf_NoDup _ Hwf) as Hnd. pose proof (unjoin_NoDup inds r Hnd) as Hnd'.
+    destruct (dist_of _ _ Hx) as [dx [Hdx Hxd]]. destruct (dist_of _ _ Hy) as [dy [Hdy Hyd]].
+    destruct (kept_piece inds dx x (wf_In _ _ Hwf Hdx) Hxd Hnx) as [px [Hpx [Npx [Cpx _]]]].
+    destruct (kept_piece inds dy y (wf_In _ _ Hwf Hdy) Hyd Hny) as [py [Hpy [Npy [Cpy _]]]].
+    assert (Ipx : In px (unjoin inds r)) by (apply In_unjoin; eauto).
+    assert (Ipy : In py (unjoin inds r)) by (apply In_unjoin; eauto).
+    assert (Xpx : In x (dnames px)). { rewrite Npx. apply filter_In. split; [exact Hxd|]. apply negb_true_iff, memp_false_iff. exact Hnx. }
+    assert (Ypy : In y (dnames py)). { rewrite Npy. apply filter_In. split; [exact Hyd|]. apply negb_true_iff, memp_false_iff. exact Hny. }
+    destruct (in_dec Pos.eq_dec y (dnames dx)) as [Hin|Hout].
+    - assert (Ypx : In y (dnames px)). { rewrite Npx. apply filter_In. split; [exact Hin|]. apply negb_true_iff, memp_false_iff. exact Hny. }
+      rewrite (cov_same _ px x y Hnd' Ipx Xpx Ypx), (cov_same _ dx x y Hnd Hdx Hxd Hin). apply Cpx; assumption.
+    - rewrite (cov_diff r dx dy x y Hnd Hdx Hdy Hxd Hyd Hout).
+      apply (cov_diff _ px py x y Hnd' Ipx Ipy Xpx Ypy). intro H. apply Hout. eapply piece_names_incl; eauto.
+  Qed.
+
+  Lemma unjoin_variance inds (r : coll) x : wf r = true -> In x (names r) ->
+    cov (unjoin inds r) x x = cov r x x.
+  Proof.
+    intros Hwf Hx. destruct (in_dec Pos.eq_dec x inds) as [Hi|Hni]; [|apply unjoin_cov_kept; assumption].
+    pose proof (wf_NoDup _ Hwf) as Hnd. pose proof (unjoin_NoDup inds r Hnd) as Hnd'.
+    destruct (dist_of _ _ Hx) as [dx [Hdx Hxd]].
+    destruct (removed_piece inds dx x (wf_In _ _ Hwf Hdx) Hxd Hi) as [p [Hp [Np [Cp _]]]].
+    assert (Ip : In p (unjoin inds r)) by (apply In_unjoin; eauto).
+    assert (Xp : In x (dnames p)) by (rewrite Np; left; reflexivity).
+    rewrite (cov_same _ p x x Hnd' Ip Xp Xp), (cov_same _ dx x x Hnd Hdx Hxd Hxd). exact Cp.
+  Qed.
+
+  Lemma unjoin_cov_removed inds (r : coll) x y : wf r = true -> In x (names r) -> In y (names r) ->
+    In x inds -> x <> y -> cov (unjoin inds r) x y = Some zero /\ cov (unjoin inds r) y x = Some zero.
+  Proof.
+    intros Hwf Hx Hy Hi Hne. pose proof (wf_NoDup _ Hwf) as Hnd. pose proof (unjoin_NoDup inds r Hnd) as Hnd'.
+    destruct (dist_of _ _ Hx) as [dx [Hdx Hxd]].
+    destruct (removed_piece inds dx x (wf_In _ _ Hwf Hdx) Hxd Hi) as [p [Hp [Np _]]].
+    assert (Ip : In p (unjoin inds r)) by (apply In_unjoin; eauto).
+    assert (Xp : In x (dnames p)) by (rewrite Np; left; reflexivity).
+    assert (Hy' : In y (names (unjoin inds r))).
+    { apply (Permutation_in y (Permutation_sym (unjoin_names_perm inds r))). exact Hy. }
+    destruct (dist_of _ _ Hy') as [q [Hq Yq]].
+    assert (Ynp : ~ In y (dnames p)). { rewrite Np. intros [H|[]]. congruence. }
+    split.
+    - apply (cov_diff _ p q x y Hnd' Ip Hq Xp Yq Ynp).
+    - apply (cov_diff _ q p y x Hnd' Hq Ip Yq Xp). intro Xq.
+      pose proof (same_dist _ p q x Hnd' Ip Hq Xp Xq) as Epq. subst q. contradiction.
+  Qed.
+
+  (* ---- sub-collections (filter) keep covariances ---------------------------------------------- *)
+  Lemma NoDup_app_incl {A} (a b b' : list A) : NoDup (a ++ b) -> NoDup b' -> incl b' b -> NoDup (a ++ b').
+  Proof.
+    induction a as [|x a IH]; cbn; intros H Hb Hi; [exact Hb|].
+    inversion H; subst. constructor; [|apply IH; assumption].
+    intro HI. apply H2. apply in_app_or in HI. apply in_or_app. destruct HI; [left|right]; auto.
+  Qed.
+
+  Lemma names_filter_incl (P : dist -> bool) (u : coll) : incl (names (filter P u)) (names u).
+  Proof.
+    intros x Hx. apply In_names in Hx. destruct Hx as [d [Hd Hx]]. apply filter_In in Hd.
+    apply In_names. exists d. destruct Hd as [Hd _]. split; assumption.
+  Qed.
+
+  Lemma names_filter_NoDup (P : dist -> bool) (u : coll) : NoDup (names u) -> NoDup (names (filter P u)).
+  Proof.
+    induction u as [|d tl IH]; cbn [filter]; intros H; [exact H|].
+    rewrite names_cons in H. destruct (P d).
+    - rewrite names_cons. eapply NoDup_app_incl; [exact H | apply IH; eapply NoDup_app_r; eauto | apply names_filter_incl].
+    - apply IH. eapply NoDup_app_r; eauto.
+  Qed.
+
+  Lemma cov_filter (P : dist -> bool) (u : coll) x y : NoDup (names u) ->
+    In x (names (filter P u)) -> In y (names (filter P u)) -> cov (filter P u) x y = cov u x y.
+  Proof.
+    intros Hnd Hx Hy. pose proof (names_filter_NoDup P u Hnd) as Hnd'.
+    destruct (dist_of _ _ Hx) as [dx [Hdx Hxd]]. destruct (dist_of _ _ Hy) as [dy [Hdy Hyd]].
+    assert (Ux : In dx u) by (apply filter_In in Hdx; destruct Hdx; assumption).
+    assert (Uy : In dy u) by (apply filter_In in Hdy; destruct Hdy; assumption).
+    destruct (in_dec Pos.eq_dec y (dnames dx)) as [Hin|Hout].
+    - rewrite (cov_same _ dx x y Hnd' Hdx Hxd Hin), (cov_same _ dx x y Hnd Ux Hxd Hin). reflexivity.
+    - rewrite (cov_diff _ dx dy x y Hnd' Hdx Hdy Hxd Hyd Hout), (cov_diff _ dx dy x y Hnd Ux Uy Hxd Hyd Hout). reflexivity.
+  Qed.
+
+  (* ---- __getitem__ with a container of names -------------------------------------------------- *)
+  Lemma getitem1_names ind rem (d : dist) : wf_dist d = true ->
+    (forall n, In n (dnames d) -> memp n rem = negb (memp n ind)) ->
+    names (filter (first_name_in E ind) (unjoin1 rem d)) = filter (fun n => memp n ind) (dnames d).
+  Proof.
+    intros Hwf Hrem. destruct d as [n l m v | ns l mu V].
+    - cbn [Model.unjoin1 filter dnames]. unfold first_name_in. cbn [dnames].
+      destruct (memp n ind); reflexivity.
+    - destruct (wf_dist_joint _ _ _ _ Hwf) as [Hlen [_ [_ [_ Hnd]]]].
+      cbn [Model.unjoin1 dnames] in *.
+      assert (Fext : filter (fun n => memp n ind) ns = filter (fun n => negb (memp n rem)) ns).
+      { apply filter_ext_in. intros a Ha. rewrite (Hrem a Ha), negb_involutive. reflexivity. }
+      destruct (existsb (fun item => memp item ns) rem) eqn:Aff.
+      + rewrite filter_app.
+        assert (S0 : filter (first_name_in E ind)
+                        (map (fun i => Normal (nth i ns 1%positive) l (nth i mu zero) (Model.mget E zero V i i))
+                             (positions (fun n => memp n rem) ns)) = []).
+        { assert (G : forall R, (forall i, In i R -> In i (positions (fun n => memp n rem) ns)) ->
+                      filter (first_name_in E ind)
+                        (map (fun i => Normal (nth i ns 1%positive) l (nth i mu zero) (Model.mget E zero V i i)) R) = []).
+          { induction R as [|i R IH]; intros HR; [reflexivity|]. cbn [map filter].
+            pose proof (HR i (or_introl eq_refl)) as Hi. apply positions_spec in Hi. destruct Hi as [Hil Hif].
+            unfold first_name_in at 1. cbn [dnames].
+            rewrite (Hrem (nth i ns 1%positive) (nth_In _ _ Hil)) in Hif. apply negb_true_iff in Hif. rewrite Hif.
+            apply IH. intros j Hj. apply HR. right. exact Hj. }
+          apply G. auto. }
+        rewrite S0. cbn [app]. rewrite Fext.
+        pose proof (map_nth_positions (fun n => negb (memp n rem)) ns 1%positive) as HK.
+        destruct (positions (fun n => negb (memp n rem)) ns) as [|k [|k2 K]] eqn:EK.
+        * etransitivity; [|exact HK]. reflexivity.
+        * assert (Hk : In k (positions (fun n => negb (memp n rem)) ns)) by (rewrite EK; left; reflexivity).
+          apply positions_spec in Hk. destruct Hk as [Hkl Hkf].
+          cbn [filter]. unfold first_name_in. cbn [dnames].
+          rewrite (Hrem _ (nth_In _ _ Hkl)), negb_involutive in Hkf. rewrite Hkf. etransitivity; [|exact HK]. reflexivity.
+        * assert (Hk : In k (positions (fun n => negb (memp n rem)) ns)) by (rewrite EK; left; reflexivity).
+          apply positions_spec in Hk. destruct Hk as [Hkl Hkf].
+          cbn [filter]. unfold first_name_in. cbn [dnames map].
+          rewrite (Hrem _ (nth_In _ _ Hkl)), negb_involutive in Hkf. rewrite Hkf. etransitivity; [|exact HK].
+          cbn. rewrite app_nil_r. reflexivity.
+      + cbn [filter]. unfold first_name_in. cbn [dnames].
+        assert (All : forall n, In n ns -> memp n ind = true).
+        { intros n Hn. pose proof (unaffected_notin rem ns n Aff Hn) as Hr. rewrite (Hrem n Hn) in Hr.
+          apply negb_false_iff in Hr. exact Hr. }
+        destruct ns as [|n0 ns']; [cbn in Hlen; lia|].
+        rewrite (All n0 (or_introl eq_refl)). cbn [names flat_map dnames]. rewrite app_nil_r.
+        symmetry. apply filter_all. exact All.
+  Qed.
+
+  Lemma getitem_gen_names ind rem (r0 : coll) :
+    (forall d, In d r0 -> wf_dist d = true) ->
+    (forall n, In n (names r0) -> memp n rem = negb (memp n ind)) ->
+    names (filter (first_name_in E ind) (unjoin rem r0)) = filter (fun n => memp n ind) (names r0).
+  Proof.
+    induction r0 as [|d tl IH]; intros Hwf Hrem; [reflexivity|].
+    unfold Model.unjoin in *. cbn [flat_map]. rewrite filter_app, names_app, names_cons, filter_app.
+    f_equal.
+    - apply getitem1_names; [apply Hwf; left; reflexivity|]. intros n Hn. apply Hrem. rewrite names_cons. apply in_or_app. auto.
+    - apply IH; [intros d' Hd'; apply Hwf; right; exact Hd'|]. intros n Hn. apply Hrem. rewrite names_cons. apply in_or_app. auto.
+  Qed.
+
+  Definition removed_of (ind : list id) (r : coll) : list id := filter (fun n => negb (memp n ind)) (names r).
+
+  Lemma removed_of_spec ind (r : coll) n : In n (names r) -> memp n (removed_of ind r) = negb (memp n ind).
+  Proof.
+    intros Hn. unfold removed_of. destruct (memp n ind) eqn:M; cbn [negb].
+    - apply memp_false_iff. intro H. apply filter_In in H. rewrite M in H. cbn in H. destruct H. discriminate.
+    - apply memp_In. apply filter_In. rewrite M. auto.
+  Qed.
+
+  Lemma getitem_names ind (r : coll) : wf r = true ->
+    names (getitem_list ind r) = filter (fun n => memp n ind) (names r).
+  Proof.
+    intros Hwf. unfold Model.getitem_list. apply getitem_gen_names.
+    - intros d Hd. eapply wf_In; eauto.
+    - intros n Hn. apply (removed_of_spec ind r n Hn).
+  Qed.
+
+  Lemma getitem_wf ind (r : coll) : wf r = true -> wf (getitem_list ind r) = true.
+  Proof.
+    intros Hwf. unfold Model.wf. apply andb_true_iff. split.
+    - apply forallb_forall. intros p Hp. unfold Model.getitem_list in Hp. apply filter_In in Hp. destruct Hp as [Hp _].
+      pose proof (unjoin_wf (removed_of ind r) r Hwf) as W. eapply wf_In; [exact W | exact Hp].
+    - apply nodupb_NoDup. rewrite getitem_names by exact Hwf. apply NoDup_filter. apply wf_NoDup. exact Hwf.
+  Qed.
+
+  Lemma getitem_marginal ind (r : coll) x y : wf r = true -> In x (names r) -> In y (names r) ->
+    In x ind -> In y ind -> cov (getitem_list ind r) x y = cov r x y.
+  Proof.
+    intros Hwf Hx Hy Hxi Hyi. pose proof (wf_NoDup _ Hwf) as Hnd.
+    assert (Gx : In x (names (getitem_list ind r))).
+    { rewrite getitem_names by exact Hwf. apply filter_In. split; [exact Hx | apply memp_In; exact Hxi]. }
+    assert (Gy : In y (names (getitem_list ind r))).
+    { rewrite getitem_names by exact Hwf. apply filter_In. split; [exact Hy | apply memp_In; exact Hyi]. }
+    unfold Model.getitem_list in *. fold (removed_of ind r) in *.
+    rewrite (cov_filter _ _ x y (unjoin_NoDup _ r Hnd) Gx Gy).
+    apply unjoin_cov_kept; try assumption.
+    - apply memp_false_iff. rewrite (removed_of_spec ind r x Hx). apply negb_false_iff, memp_In. exact Hxi.
+    - apply memp_false_iff. rewrite (removed_of_spec ind r y Hy). apply negb_false_iff, memp_In. exact Hyi.
+  Qed.
+
+  (* etas / epsilons / iiv / iov are filters *)
+  Lemma with_levels_cov ls (r : coll) x y : wf r = true ->
+    In x (names (with_levels E ls r)) -> In y (names (with_levels E ls r)) ->
+    cov (with_levels E ls r) x y = cov r x y.
+  Proof. intros Hwf. apply cov_filter. apply wf_NoDup. exact Hwf. Qed.
+
+  (* ---- matrices: set / get --------------------------------------------------------------------- *)
+  Definition sq (n : nat) (M : matrix) : Prop := length M = n /\ forall row, In row M -> length row = n.
+
+  Lemma set_nth_length {A} (l : list A) i f : length (set_nth l i f) = length l.
+  Proof.
+    unfold set_nth. revert i. induction l as [|x tl IH]; intros i.
+    - destruct i; reflexivity.
+    - destruct i as [|i]; cbn [firstn skipn app length]; [reflexivity|]. rewrite IH. reflexivity.
+  Qed.
+
+  Lemma set_nth_nth {A} (l : list A) i f k d : i < length l ->
+    nth k (set_nth l i f) d = if Nat.eqb k i then f (nth i l d) else nth k l d.
+  Proof.
+    unfold set_nth. revert i k. induction l as [|x tl IH]; intros i k Hi; [cbn in Hi; lia|].
+    destruct i as [|i]; cbn [firstn skipn app].
+    - destruct k; reflexivity.
+    - cbn in Hi. destruct k as [|k]; [reflexivity|]. cbn [nth]. rewrite IH by lia. reflexivity.
+  Qed.
+
+  Lemma set_nth_In {A} (l : list A) i f y : In y (set_nth l i f) -> In y l \/ exists x, In x l /\ y = f x.
+  Proof.
+    unfold set_nth. revert i. induction l as [|x tl IH]; intros i H.
+    - destruct i; cbn in H; contradiction.
+    - destruct i as [|i]; cbn [firstn skipn app] in H.
+      + destruct H as [H|H]; [right; exists x; split; [left; reflexivity | auto] | left; right; exact H].
+      + destruct H as [H|H]; [left; left; exact H|]. destruct (IH i H) as [H1|[z [H1 H2]]].
+        * left. right. exact H1.
+        * right. exists z. split; [right; exact H1 | exact H2].
+  Qed.
+
+  Lemma sq_nth n (M : matrix) a : sq n M -> a < n -> length (nth a M []) = n.
+  Proof. intros [H1 H2] Ha. apply H2. apply nth_In. lia. Qed.
+
+  Lemma mset_sq n (M : matrix) i j v : sq n M -> sq n (mset E M i j v).
+  Proof.
+    intros [H1 H2]. unfold mset. split; [rewrite set_nth_length; exact H1|].
+    intros row Hr. apply set_nth_In in Hr. destruct Hr as [Hr|[x [Hx ->]]]; [auto|].
+    rewrite set_nth_length. auto.
+  Qed.
+
+  Lemma mget_mset n (M : matrix) i j v a b : sq n M -> i < n -> j < n ->
+    mget (mset E M i j v) a b = if Nat.eqb a i && Nat.eqb b j then v else mget M a b.
+  Proof.
+    intros Hsq Hi Hj. unfold Model.mget, mset. destruct Hsq as [H1 H2].
+    rewrite set_nth_nth by lia. destruct (Nat.eqb a i) eqn:Ea; cbn [andb]; [|reflexivity].
+    apply Nat.eqb_eq in Ea. subst a.
+    rewrite set_nth_nth by (rewrite (H2 (nth i M [])); [lia | apply nth_In; lia]).
+    reflexivity.
+  Qed.
+
+  (* one row of a block *)
+  Definition row_write (M : matrix) (r c0 : nat) (f : nat -> E) (c : nat) : matrix :=
+    fold_left (fun M j => mset E M r (c0 + j) (f j)) (seq 0 c) M.
+
+  Lemma row_write_spec n (M : matrix) r c0 f c : sq n M -> r < n -> c0 + c <= n ->
+    sq n (row_write M r c0 f c) /\
+    forall a b, mget (row_write M r c0 f c) a b =
+                if Nat.eqb a r && (c0 <=? b) && (b <? c0 + c) then f (b - c0) else mget M a b.
+  Proof.
+    intros Hsq Hr. induction c as [|c IH]; intros Hc.
+    - unfold row_write. cbn [seq fold_left]. split; [exact Hsq|]. intros a b. bcases; try lia; reflexivity.
+    - destruct (IH ltac:(lia)) as [IS IE]. unfold row_write in *. rewrite seq_S, fold_left_app. cbn [fold_left plus].
+      split; [apply mset_sq; exact IS|]. intros a b.
+      rewrite (mget_mset n) by (try exact IS; lia). rewrite IE.
+      bcases; try lia; try reflexivity. f_equal. lia.
+  Qed.
+
+  Definition block_write (M : matrix) (row col : nat) (g : nat -> nat -> E) (R C : nat) : matrix :=
+    fold_left (fun M i => row_write M (row + i) col (g i) C) (seq 0 R) M.
+
+  Lemma block_write_spec n (M : matrix) row col g R C : sq n M -> row + R <= n -> col + C <= n ->
+    sq n (block_write M row col g R C) /\
+    forall a b, mget (block_write M row col g R C) a b =
+                if (row <=? a) && (a <? row + R) && (col <=? b) && (b <? col + C)
+                then g (a - row) (b - col) else mget M a b.
+  Proof.
+    intros Hsq. induction R as [|R IH]; intros HR HC.
+    - unfold block_write. cbn [seq fold_left]. split; [exact Hsq|]. intros a b. bcases; try lia; reflexivity.
+    - destruct (IH ltac:(lia) HC) as [IS IE]. unfold block_write in *. rewrite seq_S, fold_left_app. cbn [fold_left plus].
+      destruct (row_write_spec n _ (row + R) col (g R) C IS ltac:(lia) HC) as [RS RE].
+      split; [exact RS|]. intros a b. rewrite RE, IE.
+      bcases; try lia; try reflexivity. f_equal; lia.
+  Qed.
+
+  Lemma write_block_eq (M : matrix) row col (V : matrix) :
+    write_block E zero M row col V = block_write M row col (fun i j => mget V i j) (mrows E V) (mcols E V).
+  Proof. reflexivity. Qed.
+
+  (* ---- the covariance matrix entry by entry --------------------------------------------------- *)
+  Fixpoint loc (ds : coll) (a b : nat) : option E :=
+    match ds with
+    | [] => None
+    | d :: tl =>
+        let s := dlen E d in
+        if (a <? s) && (b <? s) then Some (mget (dvar E d) a b)
+        else if (s <=? a) && (s <=? b) then loc tl (a - s) (b - s) else None
+    end.
+
+  Lemma wf_joint_dims ns l mu (V : matrix) : wf_dist (Joint ns l mu V) = true ->
+    mrows E V = length ns /\ mcols E V = length ns /\ sq (length ns) V.
+  Proof.
+    intros Hwf. destruct (wf_dist_joint _ _ _ _ Hwf) as [Hlen [_ [HV [Hrows _]]]].
+    unfold mrows, mcols, sq. repeat split; auto.
+    destruct V as [|row V']; [cbn in HV; lia|]. apply Hrows. left. reflexivity.
+  Qed.
+
+  Lemma calc_loop_spec (ds : coll) : (forall d, In d ds -> wf_dist d = true) ->
+    forall off n (M : matrix), sq n M -> off + length (names ds) <= n ->
+    sq n (calc_loop E zero ds off off M) /\
+    forall a b, mget (calc_loop E zero ds off off M) a b =
+                if (off <=? a) && (off <=? b)
+                then match loc ds (a - off) (b - off) with Some e => e | None => mget M a b end
+                else mget M a b.
+  Proof.
+    induction ds as [|d tl IH]; intros Hwf off n M Hsq Hn.
+    - cbn [calc_loop loc]. split; [exact Hsq|]. intros a b. destruct ((off <=? a) && (off <=? b)); reflexivity.
+    - rewrite names_cons, app_length in Hn.
+      assert (Hwtl : forall d', In d' tl -> wf_dist d' = true) by (intros d' Hd'; apply Hwf; right; exact Hd').
+      pose proof (Hwf d (or_introl eq_refl)) as Hwd.
+      destruct d as [nm l m v | ns l mu V]; cbn [calc_loop].
+      + cbn [dnames length] in Hn.
+        destruct (IH Hwtl (S off) n (mset E M off off v) (mset_sq n M off off v Hsq) ltac:(lia)) as [IS IE].
+        split; [exact IS|]. intros a b. rewrite IE. rewrite (mget_mset n) by (try exact Hsq; lia).
+        cbn [loc dvar]. unfold dlen. cbn [dnames length].
+        replace (a - S off) with (a - off - 1) by lia. replace (b - S off) with (b - off - 1) by lia.
+        bcases; try lia; try reflexivity.
+        * subst. rewrite Nat.sub_diag. reflexivity.
+      + destruct (wf_joint_dims _ _ _ _ Hwd) as [HR [HC HVsq]].
+        cbn [dnames] in Hn. set (s := length ns) in *.
+        rewrite write_block_eq, HR, HC.
+        destruct (block_write_spec n M off off (fun i j => mget V i j) s s Hsq ltac:(lia) ltac:(lia)) as [BS BE].
+        destruct (IH Hwtl (off + s) n _ BS ltac:(lia)) as [IS IE].
+        split; [exact IS|]. intros a b. rewrite IE, BE. cbn [loc dvar]. unfold dlen. cbn [dnames]. fold s.
+        rewrite !Nat.sub_add_distr.
+        bcases; try lia; try reflexivity.
+  Qed.
+
+  (* ---- block_diag entry by entry -------------------------------------------------------------- *)
+  Lemma dvar_sq (d : dist) : wf_dist d = true -> sq (dlen E d) (dvar E d).
+  Proof.
+    destruct d as [nm l m v | ns l mu V]; intros Hwf.
+    - cbn. split; [reflexivity|]. intros row [<-|[]]. reflexivity.
+    - destruct (wf_joint_dims _ _ _ _ Hwf) as [_ [_ H]]. exact H.
+  Qed.
+
+  Lemma nth_repeat_zero k m : nth k (repeat zero m) zero = zero.
+  Proof. revert k. induction m as [|m IH]; intros [|k]; cbn; auto. Qed.
+
+  Lemma block_diag_spec (ds : coll) : (forall d, In d ds -> wf_dist d = true) ->
+    sq (length (names ds)) (block_diag E zero (map (dvar E) ds)) /\
+    forall a b, a < length (names ds) -> b < length (names ds) ->
+                mget (block_diag E zero (map (dvar E) ds)) a b =
+                match loc ds a b with Some e => e | None => zero end.
+  Proof.
+    induction ds as [|d tl IH]; intros Hwf.
+    - cbn. split; [split; [reflexivity | intros row []]|]. intros a b Ha. lia.
+    - assert (Hwtl : forall d', In d' tl -> wf_dist d' = true) by (intros d' Hd'; apply Hwf; right; exact Hd').
+      destruct (IH Hwtl) as [[RL RR] RE]. clear IH.
+      destruct (dvar_sq d (Hwf d (or_introl eq_refl))) as [BL BR].
+      rewrite names_cons, app_length. fold (dlen E d). set (s := dlen E d) in *. set (m := length (names tl)) in *.
+      cbn [map block_diag]. set (R := block_diag E zero (map (dvar E) tl)) in *. set (B := dvar E d) in *.
+      split.
+      + split.
+        * rewrite app_length, !map_length. lia.
+        * intros row Hrow. apply in_app_or in Hrow. destruct Hrow as [Hrow|Hrow]; apply in_map_iff in Hrow;
+            destruct Hrow as [x [<- Hx]]; rewrite app_length, repeat_length.
+          -- rewrite (BR x Hx). lia.
+          -- rewrite (RR x Hx). lia.
+      + intros a b Ha Hb. cbn [loc]. fold s. unfold Model.mget at 1.
+        destruct (Nat.ltb_spec a s) as [Has|Has].
+        * rewrite app_nth1 by (rewrite map_length; lia).
+          rewrite (nth_map_nth (fun row => row ++ repeat zero (length R)) B a [] []) by lia.
+          assert (Hrl : length (nth a B []) = s) by (apply BR, nth_In; lia).
+          destruct (Nat.ltb_spec b s) as [Hbs|Hbs]; cbn [andb].
+          -- rewrite app_nth1 by lia. reflexivity.
+          -- rewrite app_nth2 by lia. rewrite nth_repeat_zero.
+             destruct (Nat.leb_spec s a); [lia|]. reflexivity.
+        * rewrite app_nth2 by (rewrite map_length; lia). rewrite map_length, BL.
+          rewrite (nth_map_nth (fun row => repeat zero s ++ row) R (a - s) [] []) by lia.
+          cbn [andb]. destruct (Nat.leb_spec s a); [|lia]. cbn [andb].
+          destruct (Nat.leb_spec s b) as [Hbs|Hbs].
+          -- rewrite app_nth2 by (rewrite repeat_length; lia). rewrite repeat_length.
+             rewrite <- (RE (a - s) (b - s)) by lia. reflexivity.
+          -- rewrite app_nth1 by (rewrite repeat_length; lia). apply nth_repeat_zero.
+  Qed.
+
+  Lemma matrix_ext n (A B : matrix) : sq n A -> sq n B ->
+    (forall a b, a < n -> b < n -> mget A a b = mget B a b) -> A = B.
+  Proof.
+    intros [AL AR] [BL BR] H. apply (nth_ext A B [] []); [lia|]. intros a Ha.
+    assert (La : length (nth a A []) = n) by (apply AR, nth_In; exact Ha).
+    assert (Lb : length (nth a B []) = n) by (apply BR, nth_In; lia).
+    apply (nth_ext _ _ zero zero); [lia|]. intros b Hb. apply H; lia.
+  Qed.
+
+  Lemma zeros_sq n : sq n (zeros E zero n).
+  Proof.
+    unfold zeros. split; [apply repeat_length|]. intros row Hr. apply repeat_spec in Hr. subst. apply repeat_length.
+  Qed.
+
+  Lemma mget_zeros n a b : mget (zeros E zero n) a b = zero.
+  Proof.
+    unfold Model.mget, zeros. destruct (Nat.ltb_spec a n).
+    - assert (E1 : nth a (repeat (repeat zero n) n) [] = repeat zero n).
+      { apply (repeat_spec n). apply nth_In. rewrite repeat_length. exact H. }
+      rewrite E1. apply nth_repeat_zero.
+    - rewrite (nth_overflow (repeat (repeat zero n) n) []) by (rewrite repeat_length; exact H). destruct b; reflexivity.
+  Qed.
+
+  Lemma wf_names_nil (r : coll) : wf r = true -> names r = [] -> r = [].
+  Proof.
+    intros Hwf Hn. destruct r as [|d tl]; [reflexivity|]. exfalso.
+    destruct (wf_cons _ _ Hwf) as [Hd _]. rewrite names_cons in Hn. apply app_eq_nil in Hn. destruct Hn as [Hn _].
+    destruct d as [nm l m v | ns l mu V]; cbn [dnames] in Hn; [discriminate|].
+    destruct (wf_dist_joint _ _ _ _ Hd) as [Hl _]. subst ns. cbn in Hl. lia.
+  Qed.
+
+  Lemma covariance_matrix_loop (r : coll) : wf r = true ->
+    covariance_matrix E zero r = calc_loop E zero r 0 0 (zeros E zero (length (names r))).
+  Proof.
+    intros Hwf. unfold covariance_matrix, calc. rewrite nrvs_names.
+    destruct (names r) as [|x tl] eqn:En; [|reflexivity].
+    rewrite (wf_names_nil r Hwf En). reflexivity.
+  Qed.
+
+  Lemma cov_block_diag_lemma (r : coll) : wf r = true ->
+    covariance_matrix E zero r = block_diag E zero (map (dvar E) r).
+  Proof.
+    intros Hwf. rewrite covariance_matrix_loop by exact Hwf.
+    assert (Hw : forall d, In d r -> wf_dist d = true) by (intros d Hd; eapply wf_In; eauto).
+    set (n := length (names r)).
+    destruct (calc_loop_spec r Hw 0 n (zeros E zero n) (zeros_sq n) ltac:(lia)) as [CS CE].
+    destruct (block_diag_spec r Hw) as [BS BE]. fold n in BS, BE.
+    apply (matrix_ext n); [exact CS | exact BS|]. intros a b Ha Hb.
+    rewrite CE, (BE a b Ha Hb). cbn [Nat.leb andb]. rewrite !Nat.sub_0_r, mget_zeros. reflexivity.
+  Qed.
+
+  (* ---- entries of the covariance matrix are the covariances of the named variables ------------ *)
+  Lemma cov_cons_skip (d : dist) (tl : coll) x y : ~ In x (dnames d) -> ~ In y (dnames d) ->
+    cov (d :: tl) x y = cov tl x y.
+  Proof.
+    intros Hx Hy. unfold Model.cov, Model.lookup. cbn [Model.lookup_from].
+    apply memp_false_iff in Hx. apply memp_false_iff in Hy. rewrite Hx, Hy, !lookup_from_shift.
+    destruct (lookup_from tl x 0) as [[i d1]|]; [|reflexivity].
+    destruct (lookup_from tl y 0) as [[j d2]|]; reflexivity.
+  Qed.
+
+  Lemma loc_cov (r : coll) : wf r = true -> forall a b, a < length (names r) -> b < length (names r) ->
+    cov r (nth a (names r) 1%positive) (nth b (names r) 1%positive) =
+    Some (match loc r a b with Some e => e | None => zero end).
+  Proof.
+    induction r as [|d tl IH]; intros Hwf a b Ha Hb; [cbn in Ha; lia|].
+    destruct (wf_cons _ _ Hwf) as [Hwd Hwtl]. pose proof (wf_NoDup _ Hwf) as Hnd.
+    rewrite names_cons in *. rewrite app_length in Ha, Hb. cbn [loc]. fold (dlen E d) in Ha, Hb. set (s := dlen E d) in *.
+    assert (Hs : length (dnames d) = s) by reflexivity.
+    destruct (Nat.ltb_spec a s) as [Has|Has]; destruct (Nat.ltb_spec b s) as [Hbs|Hbs]; cbn [andb].
+    - (* both in the first block *)
+      rewrite !app_nth1 by lia.
+      rewrite (cov_same (d :: tl) d _ _ Hnd (or_introl eq_refl)) by (apply nth_In; lia).
+      destruct d as [nm l m v | ns l mu V]; cbn [Model.dcov dnames dvar] in *.
+      + assert (a = 0) by (cbn in Has; lia). assert (b = 0) by (cbn in Hbs; lia). subst. cbn. rewrite Pos.eqb_refl. reflexivity.
+      + destruct (wf_dist_joint _ _ _ _ Hwd) as [_ [_ [_ [_ Hndn]]]].
+        rewrite !(index_of_nth ns Hndn) by lia. reflexivity.
+    - (* x in the first block, y later *)
+      destruct (Nat.leb_spec s a); [lia|]. cbn [andb].
+      rewrite app_nth1 by lia. rewrite app_nth2 by lia. rewrite Hs.
+      assert (Hy : In (nth (b - s) (names tl) 1%positive) (names tl)) by (apply nth_In; lia).
+      destruct (dist_of _ _ Hy) as [dy [Hdy Hyd]].
+      apply (cov_diff (d :: tl) d dy _ _ Hnd (or_introl eq_refl) (or_intror Hdy)); [apply nth_In; lia | exact Hyd|].
+      intro Hin. eapply NoDup_app_disj; [exact Hnd | exact Hin | exact Hy].
+    - destruct (Nat.leb_spec s a); [|lia]. destruct (Nat.leb_spec s b); [lia|]. cbn [andb].
+      rewrite app_nth2 by lia. rewrite app_nth1 by lia. rewrite Hs.
+      assert (Hx : In (nth (a - s) (names tl) 1%positive) (names tl)) by (apply nth_In; lia).
+      destruct (dist_of _ _ Hx) as [dx [Hdx Hxd]].
+      apply (cov_diff (d :: tl) dx d _ _ Hnd (or_intror Hdx) (or_introl eq_refl) Hxd); [apply nth_In; lia|].
+      intro Hin. apply (NoDup_app_disj _ _ (nth b (dnames d) 1%positive) Hnd); [apply nth_In; lia|].
+      apply In_names. exists dx. split; [exact Hdx | exact Hin].
+    - destruct (Nat.leb_spec s a); [|lia]. destruct (Nat.leb_spec s b); [|lia]. cbn [andb].
+      rewrite !app_nth2 by lia. rewrite Hs.
+      assert (Hx : In (nth (a - s) (names tl) 1%positive) (names tl)) by (apply nth_In; lia).
+      assert (Hy : In (nth (b - s) (names tl) 1%positive) (names tl)) by (apply nth_In; lia).
+      rewrite cov_cons_skip.
+      + apply IH; [exact Hwtl | lia | lia].
+      + intro Hin. eapply NoDup_app_disj; [exact Hnd | exact Hin | exact Hx].
+      + intro Hin. eapply NoDup_app_disj; [exact Hnd | exact Hin | exact Hy].
+  Qed.
+
+  Lemma calc_entry_cov (r : coll) a b : wf r = true -> a < length (names r) -> b < length (names r) ->
+    cov r (nth a (names r) 1%positive) (nth b (names r) 1%positive) = Some (mget (covariance_matrix E zero r) a b).
+  Proof.
+    intros Hwf Ha Hb. rewrite (loc_cov r Hwf a b Ha Hb), cov_block_diag_lemma by exact Hwf.
+    assert (Hw : forall d, In d r -> wf_dist d = true) by (intros d Hd; eapply wf_In; eauto).
+    destruct (block_diag_spec r Hw) as [_ BE]. rewrite (BE a b Ha Hb). reflexivity.
+  Qed.
+
+  Lemma covariance_matrix_sq (r : coll) : wf r = true -> sq (length (names r)) (covariance_matrix E zero r).
+  Proof.
+    intros Hwf. rewrite cov_block_diag_lemma by exact Hwf. apply block_diag_spec. intros d Hd. eapply wf_In; eauto.
+  Qed.
+
+  (* ---- join ------------------------------------------------------------------------------------- *)
+  Variable mk_cov : id -> id -> E.
+  Notation join := (join E zero is_zero mk_cov).
+  Notation place := (place E).
+
+  Definition isA (inds : list id) (d : dist) : bool := existsb (fun item => memp item (dnames d)) inds.
+  (* every distribution is entirely inside or entirely outside inds *)
+  Definition sep (inds : list id) (d : dist) : Prop :=
+    (forall n, In n (dnames d) -> In n inds) \/ (forall n, In n (dnames d) -> ~ In n inds).
+
+  Lemma isA_true inds (d : dist) : isA inds d = true <-> exists n, In n inds /\ In n (dnames d).
+  Proof.
+    unfold isA. rewrite existsb_exists. split; intros [n [H1 H2]]; exists n; split; auto; apply memp_In; exact H2.
+  Qed.
+
+  Lemma unjoin_sep inds (r : coll) d : wf r = true -> In d (unjoin inds r) -> sep inds d.
+  Proof.
+    intros Hwf Hd. apply In_unjoin in Hd. destruct Hd as [d0 [Hd0 Hp]].
+    destruct d0 as [nm l m v | ns l mu V]; cbn [Model.unjoin1] in Hp.
+    - destruct Hp as [<-|[]]. cbn [dnames]. destruct (in_dec Pos.eq_dec nm inds) as [Hi|Hi].
+      + left. intros n [<-|[]]. exact Hi.
+      + right. intros n [<-|[]]. exact Hi.
+    - destruct (existsb (fun item => memp item ns) inds) eqn:Aff.
+      + apply in_app_or in Hp. destruct Hp as [Hp|Hp].
+        * apply in_map_iff in Hp. destruct Hp as [i [<- Hi]]. apply positions_spec in Hi. destruct Hi as [_ Hi].
+          left. intros n [<-|[]]. apply memp_In. exact Hi.
+        * right. intros n Hn.
+          pose proof (map_nth_positions (fun n => negb (memp n inds)) ns 1%positive) as HK.
+          assert (Hn' : In n (map (fun i => nth i ns 1%positive) (positions (fun n => negb (memp n inds)) ns))).
+          { destruct (positions (fun n => negb (memp n inds)) ns) as [|k [|k2 K]]; [destruct Hp | |];
+              destruct Hp as [<-|[]]; exact Hn. }
+          rewrite HK in Hn'.
+          apply filter_In in Hn'. destruct Hn' as [_ Hf]. apply memp_false_iff, negb_true_iff. exact Hf.
+      + destruct Hp as [<-|[]]. right. intros n Hn. apply memp_false_iff. eapply unaffected_notin; eauto.
+  Qed.
+
+  Lemma sep_filter_names inds (u : coll) : (forall d, In d u -> sep inds d) ->
+    filter (fun n => memp n inds) (names u) = names (filter (isA inds) u) /\
+    filter (fun n => negb (memp n inds)) (names u) = names (filter (fun d => negb (isA inds d)) u).
+  Proof.
+    induction u as [|d tl IH]; intros Hs; [split; reflexivity|].
+    destruct (IH (fun d' Hd' => Hs d' (or_intror Hd'))) as [I1 I2]. clear IH.
+    rewrite names_cons. unfold id in *. rewrite !filter_app, I1, I2. cbn [filter].
+    destruct (Hs d (or_introl eq_refl)) as [Hin|Hout].
+    - assert (F1 : filter (fun n => memp n inds) (dnames d) = dnames d).
+      { apply filter_all. intros n Hn. apply memp_In. auto. }
+      assert (F2 : filter (fun n => negb (memp n inds)) (dnames d) = []).
+      { destruct (filter (fun n => negb (memp n inds)) (dnames d)) as [|z zs] eqn:Ez; [reflexivity|].
+        assert (Hz : In z (filter (fun n => negb (memp n inds)) (dnames d))) by (rewrite Ez; left; reflexivity).
+        apply filter_In in Hz. destruct Hz as [Hz1 Hz2]. apply negb_true_iff, memp_false_iff in Hz2. exfalso. auto. }
+      rewrite F1, F2. destruct (isA inds d) eqn:A; cbn [negb]; rewrite ?names_cons; split; try reflexivity.
+      + (* isA false although all-in: no names *)
+        destruct (dnames d) as [|z zs] eqn:Ez; [reflexivity|]. exfalso.
+        assert (T : isA inds d = true). { apply isA_true. exists z. rewrite Ez. split; [apply Hin|]; left; reflexivity. }
+        congruence.
+      + destruct (dnames d) as [|z zs] eqn:Ez; [reflexivity|]. exfalso.
+        assert (T : isA inds d = true). { apply isA_true. exists z. rewrite Ez. split; [apply Hin|]; left; reflexivity. }
+        congruence.
+    - assert (A : isA inds d = false).
+      { destruct (isA inds d) eqn:A; [|reflexivity]. apply isA_true in A. destruct A as [n [H1 H2]]. exfalso. eapply Hout; eauto. }
+      assert (F1 : filter (fun n => memp n inds) (dnames d) = []).
+      { destruct (filter (fun n => memp n inds) (dnames d)) as [|z zs] eqn:Ez; [reflexivity|].
+        assert (Hz : In z (filter (fun n => memp n inds) (dnames d))) by (rewrite Ez; left; reflexivity).
+        apply filter_In in Hz. destruct Hz as [Hz1 Hz2]. apply memp_In in Hz2. exfalso. eapply Hout; eauto. }
+      assert (F2 : filter (fun n => negb (memp n inds)) (dnames d) = dnames d).
+      { apply filter_all. intros n Hn. apply negb_true_iff, memp_false_iff. auto. }
+      rewrite A, F1, F2. cbn [negb]. rewrite names_cons. split; reflexivity.
+  Qed.
+
+  Lemma place_names joined inds (u : coll) first :
+    Permutation (names (place joined inds first u))
+                ((if first && existsb (isA inds) u then dnames joined else []) ++
+                 names (filter (fun d => negb (isA inds d)) u)).
+  Proof.
+    revert first. induction u as [|d tl IH]; intros first; cbn [Model.place existsb filter].
+    - rewrite andb_false_r. constructor.
+    - fold (isA inds d). destruct (isA inds d) eqn:A; cbn [negb orb].
+      + destruct first; cbn [andb].
+        * rewrite names_cons. apply Permutation_app_head. apply (IH false).
+        * apply (IH false).
+      + rewrite !names_cons. eapply Permutation_trans; [apply Permutation_app_head, IH|].
+        apply Permutation_app_swap_app.
+  Qed.
+
+  Lemma place_In joined inds (u : coll) first p :
+    In p (place joined inds first u) <->
+    (p = joined /\ first && existsb (isA inds) u = true) \/ (In p u /\ isA inds p = false).
+  Proof.
+    revert first. induction u as [|d tl IH]; intros first; cbn [Model.place existsb].
+    - rewrite andb_false_r. cbn. split; [intros [] | intros [[_ H]|[[] _]]; discriminate].
+    - fold (isA inds d). destruct (isA inds d) eqn:A; cbn [orb].
+      + destruct first; cbn [andb In]; rewrite (IH false); cbn [andb]; split.
+        * intros [H|[[_ H]|[H1 H2]]];
+            [left; split; [symmetry; exact H | reflexivity] | discriminate | right; split; [right; exact H1 | exact H2]].
+        * intros [[H _]|[[H|H] H2]]; [left; symmetry; exact H | subst; congruence | right; right; split; assumption].
+        * intros [[_ H]|[H1 H2]]; [discriminate | right; split; [right; exact H1 | exact H2]].
+        * intros [[_ H]|[[H|H] H2]]; [discriminate | subst; congruence | right; split; assumption].
+      + cbn [In]. rewrite IH. split.
+        * intros [H|[H|[H1 H2]]];
+            [right; split; [left; exact H | subst; exact A] | left; exact H | right; split; [right; exact H1 | exact H2]].
+        * intros [H|[[H|H] H2]]; [right; left; exact H | left; exact H | right; right; split; assumption].
+  Qed.
+
+  Lemma existsb_filter_nil {A} (f : A -> bool) l : existsb f l = false -> filter f l = [].
+  Proof.
+    induction l as [|x tl IH]; cbn; [reflexivity|]. destruct (f x); cbn; [discriminate|]. exact IH.
+  Qed.
+
+  Lemma joined_place_perm inds (r : coll) joined : wf r = true ->
+    dnames joined = filter (fun n => memp n inds) (names r) ->
+    Permutation (names (place joined inds true (unjoin inds r))) (names r).
+  Proof.
+    intros Hwf Hj. set (u := unjoin inds r).
+    destruct (sep_filter_names inds u (fun d Hd => unjoin_sep inds r d Hwf Hd)) as [S1 S2].
+    eapply Permutation_trans; [apply place_names|]. cbn [andb]. rewrite <- S2.
+    eapply Permutation_trans; [|apply unjoin_names_perm]. fold u.
+    eapply Permutation_trans; [|apply filter_app_perm].
+    apply Permutation_app_tail.
+    destruct (existsb (isA inds) u) eqn:Ex.
+    - rewrite Hj. apply filter_perm. apply Permutation_sym. apply unjoin_names_perm.
+    - unfold id in *. fold u. rewrite S1, (existsb_filter_nil _ _ Ex). constructor.
+  Qed.
+
+  Lemma cov_transfer (c1 c2 : coll) dx dy x y : NoDup (names c1) -> NoDup (names c2) ->
+    In dx c1 -> In dx c2 -> In dy c1 -> In dy c2 -> In x (dnames dx) -> In y (dnames dy) ->
+    cov c1 x y = cov c2 x y.
+  Proof.
+    intros N1 N2 X1 X2 Y1 Y2 Hx Hy. destruct (in_dec Pos.eq_dec y (dnames dx)) as [Hin|Hout].
+    - rewrite (cov_same c1 dx x y N1 X1 Hx Hin), (cov_same c2 dx x y N2 X2 Hx Hin). reflexivity.
+    - rewrite (cov_diff c1 dx dy x y N1 X1 Y1 Hx Hy Hout), (cov_diff c2 dx dy x y N2 X2 Y2 Hx Hy Hout). reflexivity.
+  Qed.
+
+  (* the collection produced by join, whatever the joined matrix is *)
+  Section Placed.
+    Variable inds : list id.
+    Variable r : coll.
+    Variable joined : dist.
+    Hypothesis Hwf : wf r = true.
+    Hypothesis Hj : dnames joined = filter (fun n => memp n inds) (names r).
+    Let r' := place joined inds true (unjoin inds r).
+
+    Lemma placed_NoDup : NoDup (names r').
+    Proof.
+      eapply Permutation_NoDup; [apply Permutation_sym, (joined_place_perm inds r joined Hwf Hj) | apply wf_NoDup; exact Hwf].
+    Qed.
+
+    Lemma placed_kept_piece x : In x (names r) -> ~ In x inds ->
+      exists p, In p r' /\ In p (unjoin inds r) /\ In x (dnames p) /\ (forall n, In n (dnames p) -> ~ In n inds).
+    Proof.
+      intros Hx Hni. destruct (dist_of _ _ Hx) as [dx [Hdx Hxd]].
+      destruct (kept_piece inds dx x (wf_In _ _ Hwf Hdx) Hxd Hni) as [p [Hp [Np _]]].
+      assert (Ip : In p (unjoin inds r)) by (apply In_unjoin; eauto).
+      assert (Out : forall n, In n (dnames p) -> ~ In n inds).
+      { intros n Hn. rewrite Np in Hn. apply filter_In in Hn. destruct Hn as [_ Hf]. apply memp_false_iff, negb_true_iff. exact Hf. }
+      exists p. split; [|split; [exact Ip|split; [|exact Out]]].
+      - apply place_In. right. split; [exact Ip|]. destruct (isA inds p) eqn:A; [|reflexivity].
+        apply isA_true in A. destruct A as [n [H1 H2]]. exfalso. eapply Out; eauto.
+      - rewrite Np. apply filter_In. split; [exact Hxd|]. apply negb_true_iff, memp_false_iff. exact Hni.
+    Qed.
+
+    Lemma placed_joined_in x : In x (names r) -> In x inds -> In joined r' /\ In x (dnames joined).
+    Proof.
+      intros Hx Hi. split.
+      - apply place_In. left. split; [reflexivity|]. cbn [andb]. apply existsb_exists.
+        destruct (dist_of _ _ Hx) as [dx [Hdx Hxd]].
+        destruct (removed_piece inds dx x (wf_In _ _ Hwf Hdx) Hxd Hi) as [p [Hp [Np _]]].
+        exists p. split; [apply In_unjoin; eauto|]. apply isA_true. exists x. split; [exact Hi|]. rewrite Np. left. reflexivity.
+      - rewrite Hj. apply filter_In. split; [exact Hx | apply memp_In; exact Hi].
+    Qed.
+
+    Lemma placed_cov_outside x y : In x (names r) -> In y (names r) -> ~ In x inds -> ~ In y inds ->
+      cov r' x y = cov r x y.
+    Proof.
+      intros Hx Hy Hnx Hny.
+      destruct (placed_kept_piece x Hx Hnx) as [px [X1 [X2 [X3 _]]]].
+      destruct (placed_kept_piece y Hy Hny) as [py [Y1 [Y2 [Y3 _]]]].
+      rewrite (cov_transfer r' (unjoin inds r) px py x y placed_NoDup (unjoin_NoDup inds r (wf_NoDup _ Hwf)) X1 X2 Y1 Y2 X3 Y3).
+      apply unjoin_cov_kept; assumption.
+    Qed.
+
+    Lemma placed_cov_cross x y : In x (names r) -> In y (names r) -> In x inds -> ~ In y inds ->
+      cov r' x y = Some zero /\ cov r' y x = Some zero.
+    Proof.
+      intros Hx Hy Hi Hny.
+      destruct (placed_joined_in x Hx Hi) as [J1 J2].
+      destruct (placed_kept_piece y Hy Hny) as [py [Y1 [_ [Y3 Yout]]]].
+      split.
+      - apply (cov_diff r' joined py x y placed_NoDup J1 Y1 J2 Y3). rewrite Hj. intro H. apply filter_In in H.
+        destruct H as [_ H]. apply memp_In in H. contradiction.
+      - apply (cov_diff r' py joined y x placed_NoDup Y1 J1 Y3 J2). intro H. eapply Yout; eauto.
+    Qed.
+
+    Lemma placed_cov_inside x y : In x (names r) -> In y (names r) -> In x inds -> In y inds ->
+      cov r' x y = dcov joined x y.
+    Proof.
+      intros Hx Hy Hxi Hyi. destruct (placed_joined_in x Hx Hxi) as [J1 J2]. destruct (placed_joined_in y Hy Hyi) as [_ J3].
+      apply (cov_same r' joined x y placed_NoDup J1 J2 J3).
+    Qed.
+  End Placed.
+
+  (* ---- tables ------------------------------------------------------------------------------------ *)
+  Lemma mget_mtab n c f i j : i < n -> j < c -> mget (mtab E n c f) i j = f i j.
+  Proof.
+    intros Hi Hj. unfold Model.mget, mtab.
+    rewrite (nth_map_nth (fun i => map (fun j => f i j) (seq 0 c)) (seq 0 n) i 0 []) by (rewrite seq_length; exact Hi).
+    rewrite seq_nth by exact Hi. cbn [plus].
+    rewrite (nth_map_nth (fun j => f i j) (seq 0 c) j 0 zero) by (rewrite seq_length; exact Hj).
+    rewrite seq_nth by exact Hj. reflexivity.
+  Qed.
+
+  Lemma mtab_sq n f : sq n (mtab E n n f).
+  Proof.
+    unfold mtab. split; [rewrite map_length, seq_length; reflexivity|].
+    intros row Hr. apply in_map_iff in Hr. destruct Hr as [i [<- _]]. rewrite map_length, seq_length. reflexivity.
+  Qed.
+
+  Lemma sq_dims n (M : matrix) : sq n M -> 1 <= n -> mrows E M = n /\ mcols E M = n.
+  Proof.
+    intros [H1 H2] Hn. unfold mrows, mcols. split; [exact H1|].
+    destruct M as [|row M']; [cbn in H1; lia|]. apply H2. left. reflexivity.
+  Qed.
+
+  Definition join_matrix (fill : E) (tmpl : option (list id)) (M : matrix) : matrix :=
+    if negb (is_zero fill) then fill_matrix E zero is_zero fill M
+    else match tmpl with Some pn => tmpl_matrix E zero is_zero mk_cov pn M | None => M end.
+
+  Lemma join_matrix_sq n fill tmpl (M : matrix) : sq n M -> 1 <= n -> sq n (join_matrix fill tmpl M).
+  Proof.
+    intros Hsq Hn. destruct (sq_dims n M Hsq Hn) as [HR HC]. unfold join_matrix.
+    destruct (negb (is_zero fill)).
+    - unfold fill_matrix. rewrite HR, HC. apply mtab_sq.
+    - destruct tmpl as [pn|]; [|exact Hsq]. unfold tmpl_matrix. rewrite HR, HC. apply mtab_sq.
+  Qed.
+
+  Lemma variance_cov (r : coll) x : variance E zero r x = cov r x x.
+  Proof.
+    unfold Model.variance, Model.cov. destruct (lookup r x) as [[i d]|]; [|reflexivity].
+    rewrite Nat.eqb_refl. destruct d as [n l m v | ns l mu V]; cbn [dvariance Model.dcov].
+    - rewrite andb_diag. reflexivity.
+    - destruct (index_of x ns); reflexivity.
+  Qed.
+
+  Lemma calc_parts (g : coll) : wf g = true -> g <> [] ->
+    calc E zero g = (flat_map (dmeans E) g, covariance_matrix E zero g, names g).
+  Proof.
+    intros Hwf Hne. unfold covariance_matrix, calc. destruct (names g) as [|x tl] eqn:En; [|reflexivity].
+    exfalso. apply Hne. apply wf_names_nil; assumption.
+  Qed.
+
+  Lemma join_inv inds fill tmpl (r r' : coll) ps : wf r = true -> join inds fill tmpl r = Ok (r', ps) ->
+    (forall x, In x inds -> In x (names r)) /\
+    exists d0 gtl, getitem_list inds r = d0 :: gtl /\
+      r' = place (Joint (names (getitem_list inds r)) (dlevel d0) (flat_map (dmeans E) (getitem_list inds r))
+                        (join_matrix fill tmpl (covariance_matrix E zero (getitem_list inds r))))
+                 inds true (unjoin inds r).
+  Proof.
+    intros Hwf H. unfold Model.join in H.
+    destruct (existsb (fun item => negb (memp item (names r))) inds) eqn:Ex; [discriminate|].
+    split.
+    - intros x Hx. destruct (memp x (names r)) eqn:M; [apply memp_In; exact M|]. exfalso.
+      assert (T : existsb (fun item => negb (memp item (names r))) inds = true).
+      { apply existsb_exists. exists x. rewrite M. auto. }
+      congruence.
+    - pose proof (getitem_wf inds r Hwf) as Hwg.
+      destruct (getitem_list inds r) as [|d0 gtl] eqn:Eg.
+      + exfalso. cbn in H. destruct (negb (is_zero fill)); [discriminate|]. destruct tmpl as [pn|]; cbn in H; discriminate.
+      + exists d0, gtl. split; [reflexivity|]. rewrite (calc_parts _ Hwg) in H by discriminate.
+        unfold join_matrix. destruct (negb (is_zero fill)).
+        * inversion H. reflexivity.
+        * destruct tmpl as [pn|].
+          -- destruct (tmpl_index_error E zero is_zero pn _); [discriminate|]. inversion H. reflexivity.
+          -- inversion H. reflexivity.
+  Qed.
+
+  (* entries of the joined block, for every pair of joined variables *)
+  Lemma join_entry inds fill tmpl (r r' : coll) ps x y : wf r = true -> join inds fill tmpl r = Ok (r', ps) ->
+    In x inds -> In y inds ->
+    let nm := filter (fun n => memp n inds) (names r) in
+    let M := covariance_matrix E zero (getitem_list inds r) in
+    exists i j, index_of x nm = Some i /\ index_of y nm = Some j /\ i < length nm /\ j < length nm /\
+                cov r x y = Some (mget M i j) /\
+                cov r' x y = Some (mget (join_matrix fill tmpl M) i j) /\
+                sq (length nm) M /\
+                (forall a b, a < length nm -> b < length nm ->
+                             cov r (nth a nm 1%positive) (nth b nm 1%positive) = Some (mget M a b)).
+  Proof.
+    intros Hwf HJ Hxi Hyi nm M. destruct (join_inv _ _ _ _ _ _ Hwf HJ) as [Hall [d0 [gtl [Eg ->]]]].
+    pose proof (getitem_wf inds r Hwf) as Hwg. pose proof (getitem_names inds r Hwf) as Hng. fold nm in Hng.
+    pose proof (Hall x Hxi) as Hx. pose proof (Hall y Hyi) as Hy.
+    assert (Xn : In x nm) by (apply filter_In; split; [exact Hx | apply memp_In; exact Hxi]).
+    assert (Yn : In y nm) by (apply filter_In; split; [exact Hy | apply memp_In; exact Hyi]).
+    destruct (index_of_In _ _ Xn) as [i Hi]. destruct (index_of_In _ _ Yn) as [j Hj].
+    destruct (index_of_Some _ _ _ Hi) as [Hil Hin]. destruct (index_of_Some _ _ _ Hj) as [Hjl Hjn].
+    assert (Entries : forall a b, a < length nm -> b < length nm ->
+                      cov r (nth a nm 1%positive) (nth b nm 1%positive) = Some (mget M a b)).
+    { intros a b Ha Hb. unfold M. rewrite <- calc_entry_cov by (try exact Hwg; rewrite Hng; assumption).
+      rewrite Hng. symmetry. apply getitem_marginal; try exact Hwf.
+      - assert (H : In (nth a nm 1%positive) nm) by (apply nth_In; exact Ha). apply filter_In in H. destruct H; assumption.
+      - assert (H : In (nth b nm 1%positive) nm) by (apply nth_In; exact Hb). apply filter_In in H. destruct H; assumption.
+      - assert (H : In (nth a nm 1%positive) nm) by (apply nth_In; exact Ha). apply filter_In in H. apply memp_In. destruct H; assumption.
+      - assert (H : In (nth b nm 1%positive) nm) by (apply nth_In; exact Hb). apply filter_In in H. apply memp_In. destruct H; assumption. }
+    exists i, j. repeat split; try assumption.
+    - rewrite <- (Hin 1%positive) at 1. rewrite <- (Hjn 1%positive) at 1. apply Entries; assumption.
+    - rewrite (placed_cov_inside inds r _ Hwf) by (try assumption; cbn [dnames]; exact Hng).
+      cbn [Model.dcov]. rewrite Hng, Hi, Hj. reflexivity.
+    - unfold M. rewrite <- Hng. apply covariance_matrix_sq. exact Hwg.
+    - unfold M. rewrite <- Hng. apply covariance_matrix_sq. exact Hwg.
+  Qed.
+
+  Lemma fill_entry n fill (M : matrix) i j : sq n M -> i < n -> j < n ->
+    mget (fill_matrix E zero is_zero fill M) i j = if is_zero (mget M i j) then fill else mget M i j.
+  Proof.
+    intros Hsq Hi Hj. destruct (sq_dims n M Hsq ltac:(lia)) as [HR HC]. unfold fill_matrix. rewrite HR, HC.
+    rewrite mget_mtab by assumption. reflexivity.
+  Qed.
+
+  Lemma tmpl_entry_eq n pn (M : matrix) i j : sq n M -> i < n -> j < n ->
+    mget (tmpl_matrix E zero is_zero mk_cov pn M) i j = tmpl_entry E zero is_zero mk_cov pn M i j.
+  Proof.
+    intros Hsq Hi Hj. destruct (sq_dims n M Hsq ltac:(lia)) as [HR HC]. unfold tmpl_matrix. rewrite HR, HC.
+    rewrite mget_mtab by assumption. reflexivity.
+  Qed.
+
+  Lemma join_names_lemma inds fill tmpl (r r' : coll) ps : wf r = true -> join inds fill tmpl r = Ok (r', ps) ->
+    Permutation (names r') (names r).
+  Proof.
+    intros Hwf HJ. destruct (join_inv _ _ _ _ _ _ Hwf HJ) as [_ [d0 [gtl [Eg ->]]]].
+    apply joined_place_perm; [exact Hwf|]. cbn [dnames]. apply getitem_names. exact Hwf.
+  Qed.
+
+  Lemma join_block_contiguous inds fill tmpl (r r' : coll) ps : wf r = true -> join inds fill tmpl r = Ok (r', ps) ->
+    exists pre post, names r' = pre ++ filter (fun n => memp n inds) (names r) ++ post.
+  Proof.
+    intros Hwf HJ. destruct (join_inv _ _ _ _ _ _ Hwf HJ) as [Hall [d0 [gtl [Eg ->]]]].
+    pose proof (getitem_names inds r Hwf) as Hng.
+    assert (Hne : exists x, In x inds /\ In x (names r)).
+    { assert (Hx : In d0 (getitem_list inds r)) by (rewrite Eg; left; reflexivity).
+      pose proof (wf_In _ _ (getitem_wf inds r Hwf) Hx) as Hw0.
+      assert (exists x, In x (dnames d0)) as [x Hx0].
+      { destruct d0 as [n l m v|ns l mu V]; [exists n; left; reflexivity|]. destruct (wf_dist_joint _ _ _ _ Hw0) as [Hl _].
+        destruct ns as [|n ns]; [cbn in Hl; lia|]. exists n. left. reflexivity. }
+      assert (Hxg : In x (names (getitem_list inds r))) by (apply In_names; exists d0; split; assumption).
+      rewrite Hng in Hxg. apply filter_In in Hxg. destruct Hxg as [H1 H2]. exists x. split; [apply memp_In; exact H2 | exact H1]. }
+    destruct Hne as [x [Hxi Hx]].
+    set (joined := Joint (names (getitem_list inds r)) (dlevel d0) (flat_map (dmeans E) (getitem_list inds r))
+                         (join_matrix fill tmpl (covariance_matrix E zero (getitem_list inds r)))).
+    destruct (placed_joined_in inds r joined Hwf Hng x Hx Hxi) as [J _].
+    destruct (in_split _ _ J) as [l1 [l2 El]]. exists (names l1), (names l2).
+    fold joined. rewrite El, names_app, names_cons. cbn [dnames joined]. rewrite Hng. reflexivity.
+  Qed.
+
+  Lemma join_outside_lemma inds fill tmpl (r r' : coll) ps x y : wf r = true -> join inds fill tmpl r = Ok (r', ps) ->
+    In x (names r) -> In y (names r) -> ~ In x inds -> ~ In y inds -> cov r' x y = cov r x y.
+  Proof.
+    intros Hwf HJ Hx Hy Hnx Hny. destruct (join_inv _ _ _ _ _ _ Hwf HJ) as [_ [d0 [gtl [Eg ->]]]].
+    apply placed_cov_outside; try assumption. cbn [dnames]. apply getitem_names. exact Hwf.
+  Qed.
+
+  Lemma join_cross_lemma inds fill tmpl (r r' : coll) ps x y : wf r = true -> join inds fill tmpl r = Ok (r', ps) ->
+    In x inds -> In y (names r) -> ~ In y inds -> cov r' x y = Some zero /\ cov r' y x = Some zero.
+  Proof.
+    intros Hwf HJ Hxi Hy Hny. destruct (join_inv _ _ _ _ _ _ Hwf HJ) as [Hall [d0 [gtl [Eg ->]]]].
+    apply placed_cov_cross; try assumption; [cbn [dnames]; apply getitem_names; exact Hwf | apply Hall; exact Hxi].
+  Qed.
+
+  Lemma join_variance_lemma inds fill tmpl (r r' : coll) ps x : wf r = true -> join inds fill tmpl r = Ok (r', ps) ->
+    In x (names r) ->
+    (is_zero fill = true \/ ~ In x inds \/ forall e, cov r x x = Some e -> is_zero e = false) ->
+    cov r' x x = cov r x x.
+  Proof.
+    intros Hwf HJ Hx G. destruct (in_dec Pos.eq_dec x inds) as [Hi|Hni].
+    - destruct (join_entry _ _ _ _ _ _ x x Hwf HJ Hi Hi) as [i [j [Hi1 [Hj1 [Hil [Hjl [C [C' [Hsq _]]]]]]]]].
+      rewrite Hi1 in Hj1. inversion Hj1; subst j. rewrite C, C'. f_equal.
+      unfold join_matrix. destruct (is_zero fill) eqn:Zf; cbn [negb].
+      + destruct tmpl as [pn|]; [|reflexivity]. rewrite (tmpl_entry_eq _ pn _ i i Hsq Hil Hil).
+        unfold tmpl_entry. rewrite Nat.min_id, Nat.max_id, Nat.ltb_irrefl. reflexivity.
+      + rewrite (fill_entry _ fill _ i i Hsq Hil Hil).
+        destruct G as [G|[G|G]]; [discriminate | contradiction|]. rewrite (G _ C). reflexivity.
+    - eapply join_outside_lemma; eauto.
+  Qed.
+
+  Lemma join_inblock_lemma inds fill tmpl (r r' : coll) ps x y e e' : wf r = true -> join inds fill tmpl r = Ok (r', ps) ->
+    In x inds -> In y inds -> cov r x y = Some e -> cov r y x = Some e' ->
+    ((is_zero fill = true /\ tmpl = None) \/ (is_zero e = false /\ is_zero e' = false)) ->
+    cov r' x y = Some e.
+  Proof.
+    intros Hwf HJ Hxi Hyi Ce Ce' G.
+    destruct (join_entry _ _ _ _ _ _ x y Hwf HJ Hxi Hyi) as [i [j [Hi1 [Hj1 [Hil [Hjl [C [C' [Hsq Ent]]]]]]]]].
+    destruct (join_entry _ _ _ _ _ _ y x Hwf HJ Hyi Hxi) as [j' [i' [Hj2 [Hi2 [_ [_ [D _]]]]]]].
+    rewrite Hj1 in Hj2. rewrite Hi1 in Hi2. inversion Hj2; inversion Hi2; subst j' i'.
+    rewrite C in Ce. inversion Ce as [Ee]. rewrite D in Ce'. inversion Ce' as [Ee'].
+    rewrite C'. f_equal. unfold join_matrix.
+    destruct (is_zero fill) eqn:Zf; cbn [negb].
+    - destruct tmpl as [pn|]; [|reflexivity].
+      destruct G as [[_ G]|[G1 G2]]; [discriminate|].
+      rewrite (tmpl_entry_eq _ pn _ i j Hsq Hil Hjl). unfold tmpl_entry.
+      destruct (Nat.ltb_spec (Nat.min i j) (Nat.max i j)) as [Hlt|Hge]; cbn [andb]; [|reflexivity].
+      destruct (Nat.le_ge_cases i j) as [Hij|Hij].
+      + rewrite Nat.min_l, Nat.max_r by exact Hij. rewrite Ee', G2. reflexivity.
+      + rewrite Nat.min_r, Nat.max_l by exact Hij. rewrite Ee, G1. reflexivity.
+    - destruct G as [[G _]|[G1 G2]]; [discriminate|].
+      rewrite (fill_entry _ fill _ i j Hsq Hil Hjl). rewrite Ee, G1. reflexivity.
+  Qed.
+
+  Hypothesis is_zero_zero : is_zero zero = true.
+
+  Lemma join_new_cov_lemma inds fill tmpl (r r' : coll) ps x y d : wf r = true -> join inds fill tmpl r = Ok (r', ps) ->
+    In x inds -> In y inds -> In d r -> In x (dnames d) -> ~ In y (dnames d) ->
+    let nm := filter (fun n => memp n inds) (names r) in
+    exists i j, index_of x nm = Some i /\ index_of y nm = Some j /\ i <> j /\
+      cov r' x y = Some (if negb (is_zero fill) then fill
+                         else match tmpl with
+                              | Some pn => mk_cov (nth (Nat.min i j) pn 1%positive) (nth (Nat.max i j) pn 1%positive)
+                              | None => zero
+                              end).
+  Proof.
+    intros Hwf HJ Hxi Hyi Hd Hxd Hyd nm. pose proof (wf_NoDup _ Hwf) as Hnd.
+    destruct (join_inv _ _ _ _ _ _ Hwf HJ) as [Hall _].
+    destruct (dist_of _ _ (Hall y Hyi)) as [dy [Hdy Hydy]].
+    assert (Cxy : cov r x y = Some zero) by (apply (cov_diff r d dy x y Hnd Hd Hdy Hxd Hydy Hyd)).
+    assert (Cyx : cov r y x = Some zero).
+    { apply (cov_diff r dy d y x Hnd Hdy Hd Hydy Hxd). intro H.
+      pose proof (same_dist r d dy x Hnd Hd Hdy Hxd H). subst dy. contradiction. }
+    destruct (join_entry _ _ _ _ _ _ x y Hwf HJ Hxi Hyi) as [i [j [Hi1 [Hj1 [Hil [Hjl [C [C' [Hsq Ent]]]]]]]]].
+    destruct (join_entry _ _ _ _ _ _ y x Hwf HJ Hyi Hxi) as [j' [i' [Hj2 [Hi2 [_ [_ [D _]]]]]]].
+    fold nm in Hi1, Hj1, Hj2, Hi2, Hil, Hjl, Hsq.
+    rewrite Hj1 in Hj2. rewrite Hi1 in Hi2. inversion Hj2; inversion Hi2; subst j' i'.
+    assert (Exy : mget (covariance_matrix E zero (getitem_list inds r)) i j = zero) by (rewrite C in Cxy; congruence).
+    assert (Eyx : mget (covariance_matrix E zero (getitem_list inds r)) j i = zero) by (rewrite D in Cyx; congruence).
+    assert (Hne : i <> j).
+    { intro. subst j. destruct (index_of_Some _ _ _ Hi1) as [_ H1]. destruct (index_of_Some _ _ _ Hj1) as [_ H2].
+      apply Hyd. rewrite <- (H2 1%positive), (H1 1%positive). exact Hxd. }
+    exists i, j. split; [exact Hi1|]. split; [exact Hj1|]. split; [exact Hne|]. rewrite C'. f_equal. unfold join_matrix.
+    destruct (negb (is_zero fill)).
+    - rewrite (fill_entry _ fill _ i j Hsq Hil Hjl). rewrite Exy, is_zero_zero. reflexivity.
+    - destruct tmpl as [pn|]; [|exact Exy].
+      rewrite (tmpl_entry_eq _ pn _ i j Hsq Hil Hjl). unfold tmpl_entry.
+      destruct (Nat.ltb_spec (Nat.min i j) (Nat.max i j)) as [Hlt|Hge]; [|lia]. cbn [andb].
+      destruct (Nat.le_ge_cases i j) as [Hij|Hij].
+      + rewrite Nat.min_l, Nat.max_r by exact Hij. rewrite Eyx, is_zero_zero. reflexivity.
+      + rewrite Nat.min_r, Nat.max_l by exact Hij. rewrite Exy, is_zero_zero. reflexivity.
+  Qed.
+
+  Lemma means_length (g : coll) : (forall d, In d g -> wf_dist d = true) -> length (flat_map (dmeans E) g) = length (names g).
+  Proof.
+    induction g as [|d tl IH]; intros Hw; [reflexivity|].
+    cbn [flat_map]. rewrite names_cons, !app_length, IH by (intros d' Hd'; apply Hw; right; exact Hd'). f_equal.
+    pose proof (Hw d (or_introl eq_refl)) as Hd. destruct d as [n l m v | ns l mu V]; [reflexivity|].
+    destruct (wf_dist_joint _ _ _ _ Hd) as [_ [Hmu _]]. exact Hmu.
+  Qed.
+
+  Lemma join_wf_lemma inds fill tmpl (r r' : coll) ps : wf r = true -> join inds fill tmpl r = Ok (r', ps) -> wf r' = true.
+  Proof.
+    intros Hwf HJ. pose proof (join_names_lemma _ _ _ _ _ _ Hwf HJ) as Hperm.
+    destruct (join_inv _ _ _ _ _ _ Hwf HJ) as [Hall [d0 [gtl [Eg ->]]]].
+    pose proof (getitem_wf inds r Hwf) as Hwg. pose proof (getitem_names inds r Hwf) as Hng.
+    unfold Model.wf. apply andb_true_iff. split.
+    - apply forallb_forall. intros p Hp. apply place_In in Hp. destruct Hp as [[-> _]|[Hp _]].
+      + set (g := getitem_list inds r) in *. set (n := length (names g)).
+        assert (Hn : 1 <= n).
+        { unfold n. destruct (names g) eqn:En; [|cbn; lia]. rewrite (wf_names_nil g Hwg En) in Eg. discriminate. }
+        destruct (join_matrix_sq n fill tmpl _ (covariance_matrix_sq g Hwg) Hn) as [ML MR].
+        cbn [Model.wf_dist]. rewrite means_length by (intros d Hd; eapply wf_In; eauto). fold n. rewrite ML, !Nat.eqb_refl.
+        apply andb_true_iff. split; [apply andb_true_iff; split|].
+        * apply andb_true_iff. split; [apply andb_true_iff; split; [apply Nat.leb_le; exact Hn | reflexivity] | reflexivity].
+        * apply forallb_forall. intros row Hrow. apply Nat.eqb_eq. apply MR. exact Hrow.
+        * apply nodupb_NoDup. apply wf_NoDup. exact Hwg.
+      + eapply wf_In; [apply (unjoin_wf inds r Hwf) | exact Hp].
+    - apply nodupb_NoDup. eapply Permutation_NoDup; [apply Permutation_sym; exact Hperm | apply wf_NoDup; exact Hwf].
+  Qed.
+
+  (* ---- __add__ ------------------------------------------------------------------------------------ *)
+  Lemma add_cov_left (r r2 : coll) x y : NoDup (names (r ++ r2)) -> In x (names r) -> In y (names r) ->
+    cov (r ++ r2) x y = cov r x y.
+  Proof.
+    intros Hnd Hx Hy. destruct (dist_of _ _ Hx) as [dx [Hdx Hxd]]. destruct (dist_of _ _ Hy) as [dy [Hdy Hyd]].
+    rewrite names_app in Hnd.
+    apply (cov_transfer (r ++ r2) r dx dy x y); try assumption; try (apply in_or_app; left; assumption).
+    - rewrite names_app. exact Hnd.
+    - eapply NoDup_app_l; eauto.
+  Qed.
+
+  Lemma add_cov_right (r r2 : coll) x y : NoDup (names (r ++ r2)) -> In x (names r2) -> In y (names r2) ->
+    cov (r ++ r2) x y = cov r2 x y.
+  Proof.
+    intros Hnd Hx Hy. destruct (dist_of _ _ Hx) as [dx [Hdx Hxd]]. destruct (dist_of _ _ Hy) as [dy [Hdy Hyd]].
+    rewrite names_app in Hnd.
+    apply (cov_transfer (r ++ r2) r2 dx dy x y); try assumption; try (apply in_or_app; right; assumption).
+    - rewrite names_app. exact Hnd.
+    - eapply NoDup_app_r; eauto.
+  Qed.
+
+  Lemma add_cov_cross (r r2 : coll) x y : NoDup (names (r ++ r2)) -> In x (names r) -> In y (names r2) ->
+    cov (r ++ r2) x y = Some zero /\ cov (r ++ r2) y x = Some zero.
+  Proof.
+    intros Hnd Hx Hy. destruct (dist_of _ _ Hx) as [dx [Hdx Hxd]]. destruct (dist_of _ _ Hy) as [dy [Hdy Hyd]].
+    assert (Ix : In dx (r ++ r2)) by (apply in_or_app; left; exact Hdx).
+    assert (Iy : In dy (r ++ r2)) by (apply in_or_app; right; exact Hdy).
+    pose proof Hnd as Hnd'. rewrite names_app in Hnd'.
+    split.
+    - apply (cov_diff _ dx dy x y Hnd Ix Iy Hxd Hyd). intro H. eapply NoDup_app_disj; [exact Hnd' | | exact Hy].
+      apply In_names. exists dx. split; assumption.
+    - apply (cov_diff _ dy dx y x Hnd Iy Ix Hyd Hxd). intro H. eapply NoDup_app_disj; [exact Hnd' | exact Hx |].
+      apply In_names. exists dy. split; assumption.
+  Qed.
 End Facts.
+
+(* ---------------------------------------------------------------------------------------------- *)
+(* variability levels                                                                             *)
+(* ---------------------------------------------------------------------------------------------- *)
+Section Levels.
+  Variable E : Type.
+  Variable zero : E.
+  Variable is_zero : E -> bool.
+  Variable mk_cov : id -> id -> E.
+
+  Lemma level_In (r : coll E) d x : NoDup (names r) -> In d r -> In x (dnames d) -> level E r x = Some (dlevel d).
+  Proof.
+    intros Hnd Hd Hx. unfold level. destruct (lookup_In E r d x Hnd Hd Hx) as [i [L _]]. rewrite L. reflexivity.
+  Qed.
+
+  Lemma unjoin_level_lemma inds (r : coll E) x : wf E r = true -> In x (names r) ->
+    level E (unjoin E zero inds r) x = level E r x.
+  Proof.
+    intros Hwf Hx. pose proof (wf_NoDup E _ Hwf) as Hnd. pose proof (unjoin_NoDup E zero inds r Hnd) as Hnd'.
+    destruct (dist_of E _ _ Hx) as [dx [Hdx Hxd]]. rewrite (level_In r dx x Hnd Hdx Hxd).
+    destruct (in_dec Pos.eq_dec x inds) as [Hi|Hni].
+    - destruct (removed_piece E zero inds dx x (wf_In E _ _ Hwf Hdx) Hxd Hi) as [p [Hp [Np [_ [Lp _]]]]].
+      rewrite (level_In _ p x Hnd'); [rewrite Lp; reflexivity | apply In_unjoin; eauto | rewrite Np; left; reflexivity].
+    - destruct (kept_piece E zero inds dx x (wf_In E _ _ Hwf Hdx) Hxd Hni) as [p [Hp [Np [_ [Lp _]]]]].
+      rewrite (level_In _ p x Hnd'); [rewrite Lp; reflexivity | apply In_unjoin; eauto |].
+      rewrite Np. apply filter_In. split; [exact Hxd|]. apply negb_true_iff, memp_false_iff. exact Hni.
+  Qed.
+
+  Lemma getitem_level_lemma ind (r : coll E) x : wf E r = true -> In x (names r) -> In x ind ->
+    level E (getitem_list E zero ind r) x = level E r x.
+  Proof.
+    intros Hwf Hx Hi. pose proof (wf_NoDup E _ Hwf) as Hnd.
+    pose proof (getitem_wf E zero ind r Hwf) as Hwg. pose proof (wf_NoDup E _ Hwg) as Hndg.
+    assert (Gx : In x (names (getitem_list E zero ind r))).
+    { rewrite Proofs.getitem_names by exact Hwf. apply filter_In. split; [exact Hx | apply memp_In; exact Hi]. }
+    destruct (dist_of E _ _ Gx) as [p [Hp Hxp]]. rewrite (level_In _ p x Hndg Hp Hxp).
+    unfold getitem_list in Hp. apply filter_In in Hp. destruct Hp as [Hp _].
+    rewrite <- (unjoin_level_lemma (removed_of E ind r) r x Hwf Hx).
+    symmetry. apply level_In; [apply unjoin_NoDup; exact Hnd | exact Hp | exact Hxp].
+  Qed.
+
+  (* join: when all joined variables have the same level, every variable keeps its level *)
+  Lemma join_level_lemma inds fill tmpl (r r' : coll E) ps L x : wf E r = true ->
+    join E zero is_zero mk_cov inds fill tmpl r = Ok (r', ps) ->
+    (forall z, In z inds -> level E r z = Some L) -> In x (names r) ->
+    level E r' x = level E r x.
+  Proof.
+    intros Hwf HJ Hlev Hx. pose proof (wf_NoDup E _ Hwf) as Hnd.
+    pose proof (join_wf_lemma E zero is_zero mk_cov _ _ _ _ _ _ Hwf HJ) as Hw'. pose proof (wf_NoDup E _ Hw') as Hnd'.
+    destruct (join_inv E zero is_zero mk_cov _ _ _ _ _ _ Hwf HJ) as [Hall [d0 [gtl [Eg Er']]]].
+    pose proof (Proofs.getitem_names E zero inds r Hwf) as Hng.
+    set (joined := Joint (names (getitem_list E zero inds r)) (dlevel d0)
+                         (flat_map (dmeans E) (getitem_list E zero inds r))
+                         (join_matrix E zero is_zero mk_cov fill tmpl (covariance_matrix E zero (getitem_list E zero inds r)))) in *.
+    destruct (in_dec Pos.eq_dec x inds) as [Hi|Hni].
+    - destruct (placed_joined_in E zero inds r joined Hwf Hng x Hx Hi) as [J1 J2]. rewrite <- Er' in J1.
+      rewrite (level_In r' joined x Hnd' J1 J2). cbn [dlevel joined]. rewrite (Hlev x Hi).
+      (* the level of the first selected distribution is the level of one of the joined variables *)
+      pose proof (getitem_wf E zero inds r Hwf) as Hwg.
+      assert (Hd0 : In d0 (getitem_list E zero inds r)) by (rewrite Eg; left; reflexivity).
+      assert (exists z, In z (dnames d0)) as [z Hz].
+      { pose proof (wf_In E _ _ Hwg Hd0) as W. destruct d0 as [n l m v|ns l mu V]; [exists n; left; reflexivity|].
+        destruct (wf_dist_joint E _ _ _ _ W) as [Hl _]. destruct ns as [|n ns]; [cbn in Hl; lia|]. exists n. left. reflexivity. }
+      assert (Hzg : In z (names (getitem_list E zero inds r))) by (apply In_names; exists d0; split; assumption).
+      pose proof Hzg as Hzg'. rewrite Hng in Hzg'. apply filter_In in Hzg'. destruct Hzg' as [Hzr Hzi]. apply memp_In in Hzi.
+      rewrite <- (Hlev z Hzi). rewrite <- (getitem_level_lemma inds r z Hwf Hzr Hzi).
+      f_equal. symmetry. pose proof (level_In _ d0 z (wf_NoDup E _ Hwg) Hd0 Hz) as Lz.
+      rewrite Lz. reflexivity.
+    - destruct (placed_kept_piece E zero inds r joined Hwf x Hx Hni) as [p [P1 [P2 [P3 _]]]]. rewrite <- Er' in P1.
+      rewrite (level_In r' p x Hnd' P1 P3).
+      rewrite <- (unjoin_level_lemma inds r x Hwf Hx). symmetry.
+      apply level_In; [apply unjoin_NoDup; exact Hnd | exact P2 | exact P3].
+  Qed.
+End Levels.
+
+(* ---------------------------------------------------------------------------------------------- *)
+(* subs: names through the name map, entries through fe                                           *)
+(* ---------------------------------------------------------------------------------------------- *)
+Lemma NoDup_map_inj {A B} (f : A -> B) (l : list A) a b :
+  NoDup (map f l) -> In a l -> In b l -> f a = f b -> a = b.
+Proof.
+  induction l as [|x tl IH]; cbn [map]; intros Hnd Ha Hb Hf; [destruct Ha|].
+  inversion Hnd as [|? ? Hx Hnd']; subst. destruct Ha as [->|Ha], Hb as [->|Hb].
+  - reflexivity.
+  - exfalso. apply Hx. rewrite Hf. apply in_map. exact Hb.
+  - exfalso. apply Hx. rewrite <- Hf. apply in_map. exact Ha.
+  - apply IH; assumption.
+Qed.
+
+Lemma index_of_map_inj (f : id -> id) (ns : list id) x :
+  (forall a, In a ns -> f a = f x -> a = x) -> index_of (f x) (map f ns) = index_of x ns.
+Proof.
+  induction ns as [|y tl IH]; intros Hinj; [reflexivity|]. cbn [map index_of].
+  destruct (Pos.eqb_spec y x) as [->|Hne].
+  - rewrite Pos.eqb_refl. reflexivity.
+  - destruct (Pos.eqb_spec (f y) (f x)) as [Heq|_].
+    + exfalso. apply Hne. apply Hinj; [left; reflexivity | exact Heq].
+    + rewrite IH; [reflexivity|]. intros a Ha. apply Hinj. right. exact Ha.
+Qed.
+
+Section Subs.
+  Variable E : Type.
+  Variable zero : E.
+  Variable fe : E -> E.
+  Hypothesis fe_zero : fe zero = zero.
+
+  Lemma dnames_dsubs nm (d : dist E) : dnames (dsubs E fe nm d) = map (subs_name nm) (dnames d).
+  Proof. destruct d; reflexivity. Qed.
+
+  Lemma names_map_dsubs nm (r : coll E) : names (map (dsubs E fe nm) r) = map (subs_name nm) (names r).
+  Proof.
+    induction r as [|d tl IH]; [reflexivity|]. cbn [map]. rewrite !names_cons, map_app, dnames_dsubs, IH. reflexivity.
+  Qed.
+
+  Lemma subs_names_lemma nm (r r' : coll E) : subs E fe nm r = Ok r' ->
+    r' = map (dsubs E fe nm) r /\ names r' = map (subs_name nm) (names r) /\ NoDup (names r').
+  Proof.
+    unfold subs. destruct (nodupb (names (map (dsubs E fe nm) r))) eqn:N; [|discriminate].
+    intros H. inversion H; subst. split; [reflexivity|]. split; [apply names_map_dsubs|]. apply nodupb_NoDup. exact N.
+  Qed.
+
+  Lemma mget_map_fe (V : matrix E) i j : i < length V -> j < length (nth i V []) ->
+    mget E zero (map (map fe) V) i j = fe (mget E zero V i j).
+  Proof.
+    intros Hi Hj. unfold mget. rewrite (nth_map_nth (map fe) V i [] []) by exact Hi.
+    rewrite (nth_map_nth fe (nth i V []) j zero zero) by exact Hj. reflexivity.
+  Qed.
+
+  Lemma dcov_dsubs nm (d : dist E) x y : wf_dist E d = true -> In x (dnames d) -> In y (dnames d) ->
+    (forall a, In a (dnames d) -> subs_name nm a = subs_name nm x -> a = x) ->
+    (forall a, In a (dnames d) -> subs_name nm a = subs_name nm y -> a = y) ->
+    dcov E zero (dsubs E fe nm d) (subs_name nm x) (subs_name nm y) = option_map fe (dcov E zero d x y).
+  Proof.
+    intros Hwf Hx Hy Ix Iy. destruct d as [n l m v | ns l mu V]; cbn [dsubs dcov dnames] in *.
+    - destruct Hx as [<-|[]]. destruct Hy as [<-|[]]. rewrite !Pos.eqb_refl. reflexivity.
+    - rewrite (index_of_map_inj (subs_name nm) ns x Ix), (index_of_map_inj (subs_name nm) ns y Iy).
+      destruct (index_of_In _ _ Hx) as [i Hi]. destruct (index_of_In _ _ Hy) as [j Hj]. rewrite Hi, Hj. cbn [option_map].
+      destruct (index_of_Some _ _ _ Hi) as [Hil _]. destruct (index_of_Some _ _ _ Hj) as [Hjl _].
+      destruct (wf_dist_joint E _ _ _ _ Hwf) as [_ [_ [HV [Hrows _]]]].
+      rewrite mget_map_fe; [reflexivity | lia|]. rewrite (Hrows (nth i V [])); [exact Hjl | apply nth_In; lia].
+  Qed.
+
+  Lemma subs_cov_lemma nm (r r' : coll E) x y : wf E r = true -> subs E fe nm r = Ok r' ->
+    In x (names r) -> In y (names r) ->
+    cov E zero r' (subs_name nm x) (subs_name nm y) = option_map fe (cov E zero r x y).
+  Proof.
+    intros Hwf HS Hx Hy. destruct (subs_names_lemma nm r r' HS) as [-> [Hn Hnd']].
+    pose proof (wf_NoDup E _ Hwf) as Hnd. rewrite Hn in Hnd'.
+    assert (Inj : forall a b, In a (names r) -> In b (names r) -> subs_name nm a = subs_name nm b -> a = b).
+    { intros a b Ha Hb. apply (NoDup_map_inj (subs_name nm) (names r) a b Hnd' Ha Hb). }
+    rewrite <- Hn in Hnd'.
+    destruct (dist_of E _ _ Hx) as [dx [Hdx Hxd]]. destruct (dist_of E _ _ Hy) as [dy [Hdy Hyd]].
+    assert (Sub : forall d a, In d r -> In a (dnames d) -> In a (names r)).
+    { intros d a Hd Ha. apply In_names. exists d. split; assumption. }
+    assert (Ix' : In (dsubs E fe nm dx) (map (dsubs E fe nm) r)) by (apply in_map; exact Hdx).
+    assert (Iy' : In (dsubs E fe nm dy) (map (dsubs E fe nm) r)) by (apply in_map; exact Hdy).
+    assert (Xs : In (subs_name nm x) (dnames (dsubs E fe nm dx))) by (rewrite dnames_dsubs; apply in_map; exact Hxd).
+    assert (Ys : In (subs_name nm y) (dnames (dsubs E fe nm dy))) by (rewrite dnames_dsubs; apply in_map; exact Hyd).
+    destruct (in_dec Pos.eq_dec y (dnames dx)) as [Hin|Hout].
+    - assert (Ys' : In (subs_name nm y) (dnames (dsubs E fe nm dx))) by (rewrite dnames_dsubs; apply in_map; exact Hin).
+      rewrite (cov_same E zero _ (dsubs E fe nm dx) _ _ Hnd' Ix' Xs Ys'), (cov_same E zero r dx x y Hnd Hdx Hxd Hin).
+      apply dcov_dsubs; try assumption; [eapply wf_In; eauto | |]; intros a Ha He; apply Inj; eauto.
+    - rewrite (cov_diff E zero r dx dy x y Hnd Hdx Hdy Hxd Hyd Hout). cbn [option_map]. rewrite fe_zero.
+      apply (cov_diff E zero _ (dsubs E fe nm dx) (dsubs E fe nm dy) _ _ Hnd' Ix' Iy' Xs Ys).
+      rewrite dnames_dsubs. intro H. apply in_map_iff in H. destruct H as [z [Hz1 Hz2]].
+      apply Hout. rewrite <- (Inj z y (Sub dx z Hdx Hz2) Hy Hz1). exact Hz2.
+  Qed.
+
+  Lemma subs_variance_lemma nm (r r' : coll E) x : wf E r = true -> subs E fe nm r = Ok r' -> In x (names r) ->
+    variance E zero r' (subs_name nm x) = option_map fe (variance E zero r x).
+  Proof. intros. rewrite !variance_cov. apply subs_cov_lemma; assumption. Qed.
+
+  Lemma subs_level_lemma nm (r r' : coll E) x : wf E r = true -> subs E fe nm r = Ok r' -> In x (names r) ->
+    level E r' (subs_name nm x) = level E r x.
+  Proof.
+    intros Hwf HS Hx. destruct (subs_names_lemma nm r r' HS) as [-> [Hn Hnd']].
+    destruct (dist_of E _ _ Hx) as [dx [Hdx Hxd]].
+    rewrite (level_In E r dx x (wf_NoDup E _ Hwf) Hdx Hxd).
+    rewrite (level_In E _ (dsubs E fe nm dx) (subs_name nm x) Hnd'); [destruct dx; reflexivity | apply in_map; exact Hdx|].
+    rewrite dnames_dsubs. apply in_map. exact Hxd.
+  Qed.
+End Subs.
+
+(* ---------------------------------------------------------------------------------------------- *)
+(* JointNormalDistribution.__getitem__ with a collection of names: the marginal distribution      *)
+(* ---------------------------------------------------------------------------------------------- *)
+Lemma In_dedup x l : In x (dedup l) <-> In x l.
+Proof.
+  induction l as [|y tl IH]; cbn [dedup]; [tauto|]. destruct (memp y tl) eqn:M.
+  - rewrite IH. cbn [In]. split; [auto|]. intros [<-|H]; [apply memp_In; exact M | exact H].
+  - cbn [In]. rewrite IH. tauto.
+Qed.
+
+Lemma NoDup_dedup l : NoDup (dedup l).
+Proof.
+  induction l as [|y tl IH]; cbn [dedup]; [constructor|]. destruct (memp y tl) eqn:M; [exact IH|].
+  constructor; [|exact IH]. rewrite In_dedup. apply memp_false_iff. exact M.
+Qed.
+
+Section DistGet.
+  Variable E : Type.
+  Variable zero : E.
+
+  Lemma marginal_spec (f : id -> bool) ns l mu (V : matrix E) :
+    wf_dist E (Joint ns l mu V) = true -> positions f ns <> [] ->
+    let d' := marginal E zero (Joint ns l mu V) (positions f ns) in
+    dnames d' = filter f ns /\ dlevel d' = l /\
+    forall a b, In a (filter f ns) -> In b (filter f ns) -> dcov E zero d' a b = dcov E zero (Joint ns l mu V) a b.
+  Proof.
+    intros Hwf Hne. destruct (wf_dist_joint E _ _ _ _ Hwf) as [_ [_ [_ [_ Hnd]]]].
+    pose proof (map_nth_positions f ns 1%positive) as HK. cbn [marginal].
+    destruct (positions f ns) as [|k [|k2 K]] eqn:EK; [contradiction| |].
+    - assert (Hk : k < length ns). { apply (positions_lt f). rewrite EK. left. reflexivity. }
+      cbn [dnames dlevel]. split; [exact HK|]. split; [reflexivity|].
+      intros a b Ha Hb. rewrite <- HK in Ha, Hb. destruct Ha as [<-|[]]. destruct Hb as [<-|[]].
+      cbn [dcov]. rewrite Pos.eqb_refl. cbn [andb]. rewrite (index_of_nth ns Hnd k 1%positive Hk). reflexivity.
+    - set (K2 := k :: k2 :: K) in *. cbn [dnames dlevel]. split; [exact HK|]. split; [reflexivity|].
+      intros a b Ha Hb. cbn [dcov]. apply filter_In in Ha. apply filter_In in Hb.
+      destruct Ha as [Ha Hfa]. destruct Hb as [Hb Hfb].
+      destruct (index_of_In _ _ Ha) as [ia Hia]. destruct (index_of_In _ _ Hb) as [ib Hib].
+      destruct (index_of_map_positions f ns a ia Hnd Hia Hfa) as [pa [Hpa [Hpal Hpan]]].
+      destruct (index_of_map_positions f ns b ib Hnd Hib Hfb) as [pb [Hpb [Hpbl Hpbn]]].
+      rewrite EK in Hpa, Hpb, Hpal, Hpbl, Hpan, Hpbn. fold K2 in Hpa, Hpb, Hpal, Hpbl, Hpan, Hpbn.
+      rewrite Hpa, Hpb, Hia, Hib. rewrite mget_select by assumption. rewrite Hpan, Hpbn. reflexivity.
+  Qed.
+
+  (* dist[names]: the names kept in their order, same level, all variances and covariances *)
+  Lemma dget_list_lemma ind (d d' : dist E) : wf_dist E d = true -> dget_list E zero ind d = Ok d' ->
+    dnames d' = filter (fun n => memp n ind) (dnames d) /\ dlevel d' = dlevel d /\
+    forall a b, In a (dnames d') -> In b (dnames d') -> dcov E zero d' a b = dcov E zero d a b.
+  Proof.
+    intros Hwf H. destruct d as [n l m v | ns l mu V]; cbn [dget_list] in H.
+    - destruct (negb (length ind =? 1) || negb (memp n ind)) eqn:G; [discriminate|]. inversion H; subst.
+      apply orb_false_iff in G. destruct G as [_ G]. apply negb_false_iff in G.
+      cbn [dnames filter]. rewrite G. repeat split; reflexivity.
+    - destruct ((length ind =? 0) || (length ns <? length ind)) eqn:G1; [discriminate|].
+      destruct (negb (forallb (fun x => memp x ns) ind)) eqn:G2; [discriminate|].
+      apply negb_false_iff in G2. rewrite forallb_forall in G2.
+      apply orb_false_iff in G1. destruct G1 as [G1 _]. apply Nat.eqb_neq in G1.
+      destruct (wf_dist_joint E _ _ _ _ Hwf) as [_ [_ [_ [_ Hnd]]]].
+      destruct (length (dedup ind) =? length ns) eqn:G3.
+      + (* every name is selected: the distribution itself *)
+        inversion H; subst. cbn [dnames]. split; [|split; [reflexivity | intros; reflexivity]].
+        symmetry. apply filter_all. intros n Hn. apply memp_In. apply Nat.eqb_eq in G3.
+        apply In_dedup. apply (@NoDup_length_incl _ (dedup ind) ns (NoDup_dedup ind)); [lia | | exact Hn].
+        intros z Hz. apply (proj1 (In_dedup z ind)) in Hz. apply memp_In. apply G2. exact Hz.
+      + inversion H; subst. clear H.
+        assert (Hne : positions (fun n => memp n ind) ns <> []).
+        { destruct ind as [|z zs]; [cbn in G1; contradiction|].
+          pose proof (G2 z (or_introl eq_refl)) as Hz. apply memp_In in Hz.
+          intro Hp. pose proof (map_nth_positions (fun n => memp n (z :: zs)) ns 1%positive) as HK. rewrite Hp in HK. cbn [map] in HK.
+          assert (Hz' : In z (filter (fun n => memp n (z :: zs)) ns)) by (apply filter_In; split; [exact Hz | apply memp_In; left; reflexivity]).
+          unfold id in *. rewrite <- HK in Hz'. destruct Hz'. }
+        destruct (marginal_spec (fun n => memp n ind) ns l mu V Hwf Hne) as [M1 [M2 M3]].
+        cbn [dnames dlevel] in *. split; [exact M1|]. split; [exact M2|]. intros a b Ha Hb. apply M3; rewrite <- M1; assumption.
+  Qed.
+End DistGet.
+
+Lemma subs_names_only (E : Type) (fe : E -> E) nm (r r' : coll E) :
+  subs E fe nm r = Ok r' -> names r' = map (subs_name nm) (names r) /\ NoDup (names r').
+Proof. intros H. exact (proj2 (subs_names_lemma E fe nm r r' H)). Qed.
+
+(* ---------------------------------------------------------------------------------------------- *)
+(* when join answers                                                                              *)
+(* ---------------------------------------------------------------------------------------------- *)
+Section JoinTotal.
+  Variable E : Type.
+  Variable zero : E.
+  Variable is_zero : E -> bool.
+  Variable mk_cov : id -> id -> E.
+
+  Lemma join_keyerror_lemma inds fill tmpl (r : coll E) :
+    join E zero is_zero mk_cov inds fill tmpl r = Err KeyError <-> exists x, In x inds /\ ~ In x (names r).
+  Proof.
+    unfold join. destruct (existsb (fun item => negb (memp item (names r))) inds) eqn:Ex.
+    - split; [intros _|reflexivity]. apply existsb_exists in Ex. destruct Ex as [x [H1 H2]].
+      exists x. split; [exact H1|]. apply memp_false_iff, negb_true_iff. exact H2.
+    - split.
+      + intros H. exfalso. destruct (calc E zero (getitem_list E zero inds r)) as [[means M] nm].
+        destruct (negb (is_zero fill)).
+        * destruct (getitem_list E zero inds r); discriminate.
+        * destruct tmpl as [pn|].
+          -- destruct (tmpl_index_error E zero is_zero pn M); [discriminate|]. destruct (getitem_list E zero inds r); discriminate.
+          -- destruct (getitem_list E zero inds r); discriminate.
+      + intros [x [H1 H2]]. exfalso.
+        assert (T : existsb (fun item => negb (memp item (names r))) inds = true).
+        { apply existsb_exists. exists x. split; [exact H1|]. apply negb_true_iff, memp_false_iff. exact H2. }
+        congruence.
+  Qed.
+
+  (* without a name template (or with a fill value) join succeeds on every non-empty set of existing names *)
+  Lemma join_total_lemma inds fill tmpl (r : coll E) : wf E r = true ->
+    inds <> [] -> (forall x, In x inds -> In x (names r)) -> (tmpl = None \/ is_zero fill = false) ->
+    exists r' ps, join E zero is_zero mk_cov inds fill tmpl r = Ok (r', ps).
+  Proof.
+    intros Hwf Hne Hall Hmode. unfold join.
+    assert (Ex : existsb (fun item => negb (memp item (names r))) inds = false).
+    { destruct (existsb (fun item => negb (memp item (names r))) inds) eqn:Ex; [|reflexivity].
+      apply existsb_exists in Ex. destruct Ex as [x [H1 H2]]. apply negb_true_iff, memp_false_iff in H2.
+      exfalso. apply H2. apply Hall. exact H1. }
+    rewrite Ex.
+    assert (Hg : getitem_list E zero inds r <> []).
+    { destruct inds as [|x tl]; [contradiction|]. intro Hg.
+      assert (Hx : In x (names (getitem_list E zero (x :: tl) r))).
+      { rewrite Proofs.getitem_names by exact Hwf. apply filter_In. split; [apply Hall; left; reflexivity|].
+        apply memp_In. left. reflexivity. }
+      rewrite Hg in Hx. destruct Hx. }
+    destruct (calc E zero (getitem_list E zero inds r)) as [[means M] nm].
+    destruct (getitem_list E zero inds r) as [|d0 gtl]; [contradiction|].
+    destruct Hmode as [->|Hf].
+    - destruct (negb (is_zero fill)); eexists; eexists; reflexivity.
+    - rewrite Hf. cbn [negb]. eexists; eexists; reflexivity.
+  Qed.
+End JoinTotal.
+
+(* statements phrased with [variance] (rvs[name].get_variance(name)) *)
+Lemma unjoin_variances_lemma (E : Type) (zero : E) (inds : list id) (r : coll E) (x : id) :
+  wf E r = true -> In x (names r) -> variance E zero (unjoin E zero inds r) x = variance E zero r x.
+Proof. intros. rewrite !variance_cov. apply (unjoin_variance E zero); assumption. Qed.
+
+Lemma join_variances_lemma (E : Type) (zero : E) (is_zero : E -> bool) (mk_cov : id -> id -> E)
+  inds fill tmpl (r r' : coll E) ps (x : id) :
+  wf E r = true -> join E zero is_zero mk_cov inds fill tmpl r = Ok (r', ps) -> In x (names r) ->
+  (is_zero fill = true \/ ~ In x inds \/ forall e, variance E zero r x = Some e -> is_zero e = false) ->
+  variance E zero r' x = variance E zero r x.
+Proof.
+  intros Hwf HJ Hx G. rewrite !variance_cov.
+  eapply (join_variance_lemma E zero is_zero mk_cov); eauto.
+  destruct G as [G|[G|G]]; auto. right. right. intros e He. apply G. rewrite variance_cov. exact He.
+Qed.
